@@ -1,16 +1,21 @@
 (* XmlKnownProps.v — property C02, the XML round trip of properties the reflection database knows.
    Generic in the per-value law of the XML value codec ([vcodec]: which values are read back, as what); two instances:
-   [simple_codec] (the 26 simple types of Proofs/XmlRoundTrip.v) and [ext_codec] (the remaining types, from Proofs/CrossFormat.v).
+   [simple_codec] (the 26 simple types of Proofs/XmlRoundTrip.v) and [ext_codec] (the remaining types, from Proofs/CrossFormat.v
+   and, for Attributes, Proofs/AttrFacts.v attr_roundtrip under [wf_amap]).
    (H1) [known_write] / [known_read] / [known_prop_step]: what serialize_property writes and deserialize_property stores for a
         property spelled [k] (canonical name or alias) whose descriptors are (canon, ser), neither migrating; the composed
         value function [norm_known] and its characterisation ([norm_known_typed], [norm_simple_fixed], [norm_known_identity],
-        [norm_known_color3_quantised], [norm_known_tags], [norm_known_brickcolor]).
+        [norm_known_color3_quantised], [norm_known_tags], [norm_known_brickcolor], [norm_known_attributes]).
    (H2) [xml_roundtrip_known]: the whole-file theorem for the default pairing EIgnoreUnknown / DIgnoreUnknown ([keep] = false) and
         for EWriteUnknown / DReadUnknown ([keep] = true): same forest, every known property back under its CANONICAL name with
         [norm_known] of its value, Refs relabelled, SharedStrings restored, unknown properties dropped (resp. kept as in the
-        plain theorem).
+        plain theorem).  A LEGACY (migrating) property is gone under its own name; the new canonical name holds the migrated value
+        ([migrated_back]) when the legacy property is alone, the explicit value when the instance carries one
+        ([explicit_value_stays]); values on which the migration is undefined are excluded by [mig_val_ok]
+        ([migration_undefined_refuted]).
    (H3) the database hypotheses as two executable checks ([db_keys_ok], [db_names_ok]; [xml_roundtrip_known_db]), run over the
-        whole bundled database ([bundled_keys_ok]: 22588 (class, key) pairs, two exceptions; [xml_roundtrip_known_bundled]).
+        whole bundled database ([bundled_keys_ok]: 22588 (class, key) pairs, migration targets included, two exceptions;
+        [xml_roundtrip_known_bundled]).
    (H4) two spellings of one logical property on one instance ([two_spellings_*], [one_spelling_b_sound]).
    Findings: [seras_not_back_refuted], [seras_clash_refuted] (Sound.MaxDistance, MaterialService.Use2022Materials).
    Standard library only. *)
@@ -358,13 +363,53 @@ Section Known.
     | VSharedString _ => try_convert o (VBinaryString []) cty = Ok (VBinaryString [])
     | _ => exists w, try_convert o v sty = Ok w /\ vc_ok vc w /\ exists v', try_convert o (vc_norm vc w) cty = Ok v'
     end.
-  Definition known_prop_ok (c k : bytes) (v : value) : Prop :=
+
+  (* ---- legacy (migrating) properties.  [keys] are the keys of the instance, as the writer passes them to
+     has_explicit_new_value (sorted). *)
+  Definition mig_of (p : pdesc) : option (string * migop) :=
+    match pd_kind p with KCanon (PMigrate q op) => Some (q, op) | _ => None end.
+  (* the instance carries an explicit value of the migration target [q] of its legacy key [k] (62703803) *)
+  Definition explicit_b (c : bytes) (keys : list bytes) (k : bytes) (q : string) : bool :=
+    match has_explicit_new_value e c k q keys with Ok true => true | _ => false end.
+  (* the element name the writer uses for the key [k], if it writes it at all *)
+  Definition wname (c : bytes) (keys : list bytes) (k : bytes) : option bytes :=
+    match kdesc c k with
+    | Ok (Some (_, ser)) =>
+        match mig_of ser with
+        | Some (q, _) => if explicit_b c keys k q then None else Some (B q)
+        | None => Some (B (pd_name ser))
+        end
+    | Ok None => if keep then Some k else None
+    | _ => None
+    end.
+  (* the key under which the property spelled [k] of an instance with keys [keys] comes back, if it does *)
+  Definition okey (c : bytes) (keys : list bytes) (k : bytes) : option bytes :=
+    match wname c keys k with Some pn => tkey c pn | None => None end.
+  (* the value of a legacy property: the writer's conversion succeeds and, unless an explicit new value makes the writer skip
+     it, the migration is DEFINED on it (Enum.Font items above 45, BrickColor numbers outside the palette ... are excluded
+     here: Proofs/MigratePaths.v migrate_failure_paths_disagree_refuted, bundled_font_46_unmigratable), its result is covered
+     by the per-value law and converts to the type of the new property *)
+  Definition mig_val_ok (op : migop) (sty cty : N) (explicit : bool) (v : value) : Prop :=
+    exists conv, try_convert o v sty = Ok conv /\
+      (explicit = false ->
+       exists nv, migrate (xe_font e) (xe_brick e) op conv = Some nv /\ vc_ok vc nv /\
+                  exists v', try_convert o (vc_norm vc nv) cty = Ok v').
+
+  Definition known_prop_ok (c : bytes) (keys : list bytes) (k : bytes) (v : value) : Prop :=
     match kdesc c k with
     | Ok (Some (canon, ser)) =>
-        nonmig ser /\ nonmig canon /\
-        (exists ser', find_desc_xml (xe_db e) (S_ c) (pd_name ser) = Ok (Some (canon, ser'))) /\
-        pd_name canon <> "Name"%string /\
-        val_ok (dtype_vt (pd_type ser)) (dtype_vt (pd_type canon)) v
+        match mig_of ser with
+        | Some (q, op) =>
+            (exists b, has_explicit_new_value e c k q keys = Ok b) /\
+            (forall k2, In k2 keys -> okey c keys k2 <> Some k) /\
+            exists qd qs, find_desc_xml (xe_db e) (S_ c) q = Ok (Some (qd, qs)) /\ nonmig qd /\ pd_name qd <> "Name"%string /\
+                          mig_val_ok op (dtype_vt (pd_type ser)) (dtype_vt (pd_type qd)) (explicit_b c keys k q) v
+        | None =>
+            nonmig ser /\ nonmig canon /\
+            (exists ser', find_desc_xml (xe_db e) (S_ c) (pd_name ser) = Ok (Some (canon, ser'))) /\
+            pd_name canon <> "Name"%string /\
+            val_ok (dtype_vt (pd_type ser)) (dtype_vt (pd_type canon)) v
+        end
     | Ok None => if keep then nonspecial v -> vc_ok vc v else True
     | _ => False
     end.
@@ -373,18 +418,34 @@ Section Known.
     exists canon ser, find_desc_xml (xe_db e) (S_ c) "Name" = Ok (Some (canon, ser)) /\ pd_name canon = "Name"%string /\ nonmig canon.
   (* one spelling per logical property: no two keys of the instance come back under one key *)
   Definition one_spelling (c : bytes) (keys : list bytes) : Prop :=
-    forall k1 k2 t, In k1 keys -> In k2 keys -> tkey c k1 = Some t -> tkey c k2 = Some t -> k1 = k2.
+    forall k1 k2 t, In k1 keys -> In k2 keys -> okey c keys k1 = Some t -> okey c keys k2 = Some t -> k1 = k2.
 
   Lemma dbeh_refl : dbeh <> DNoReflection.
   Proof. unfold dbeh, dbeh_of. destruct keep; discriminate. Qed.
   Lemma ebeh_refl : ebeh <> ENoReflection.
   Proof. unfold ebeh, ebeh_of. destruct keep; discriminate. Qed.
+  Lemma mig_of_none p : mig_of p = None <-> nonmig p.
+  Proof. unfold mig_of, nonmig. destruct (pd_kind p) as [[| | |q op]|]; split; intro H; try exact I; try reflexivity; try discriminate; contradiction. Qed.
+  Lemma mig_of_some p q op : mig_of p = Some (q, op) <-> pd_kind p = KCanon (PMigrate q op).
+  Proof. unfold mig_of. destruct (pd_kind p) as [[| | |q' op']|]; split; intro H; try discriminate; inversion H; reflexivity. Qed.
 
   (* ---- the writer's plan *)
-  Definition wplan (c : bytes) (kv : bytes * value) : option (bytes * value) :=
+  Definition wplan (c : bytes) (keys : list bytes) (kv : bytes * value) : option (bytes * value) :=
     match kdesc c (fst kv) with
     | Ok (Some (_, ser)) =>
-        match try_convert o (snd kv) (dtype_vt (pd_type ser)) with Ok w => Some (B (pd_name ser), w) | _ => None end
+        match try_convert o (snd kv) (dtype_vt (pd_type ser)) with
+        | Ok w =>
+            match mig_of ser with
+            | Some (q, op) =>
+                if explicit_b c keys (fst kv) q then None
+                else match migrate (xe_font e) (xe_brick e) op w with
+                     | Some nv => Some (B q, nv)
+                     | None => Some (B (pd_name ser), w)
+                     end
+            | None => Some (B (pd_name ser), w)
+            end
+        | _ => None
+        end
     | Ok None => if keep then Some kv else None
     | _ => None
     end.
@@ -392,20 +453,39 @@ Section Known.
   Lemma val_ok_conv sty cty v : val_ok sty cty v -> exists w, try_convert o v sty = Ok w.
   Proof. destruct (special_or v) as [Hs|Hn]; [intros _; exists v; now apply try_convert_special|]. destruct v; try contradiction Hn; intros (w & H & _); eauto. Qed.
 
-  Lemma ser_plan_wplan c keys k v : known_prop_ok c k v -> ser_plan e ebeh c keys k v = Ok (wplan c (k, v)).
+  Lemma ser_plan_wplan c keys k v : known_prop_ok c keys k v -> ser_plan e ebeh c keys k v = Ok (wplan c keys (k, v)).
   Proof.
     unfold known_prop_ok, wplan. cbn [fst snd]. destruct (kdesc c k) as [[[canon ser]|]| |cc|] eqn:Ek; try contradiction.
-    - intros (Hms & _ & _ & _ & Hv). destruct (val_ok_conv _ _ _ Hv) as (w & Hw). fold o. rewrite Hw.
-      exact (known_write e ebeh c keys k v canon ser w ebeh_refl Ek Hms Hw).
+    - destruct (mig_of ser) as [[q op]|] eqn:Em.
+      + intros ((b & Hb) & _ & qd & qs & _ & _ & _ & conv & Hcv & _). fold o. rewrite Hcv.
+        apply mig_of_some in Em. unfold ser_plan.
+        assert (E : match ebeh with ENoReflection => Ok None | _ => find_desc_xml (xe_db e) (S_ c) (S_ k) end = Ok (Some (canon, ser)))
+          by (pose proof ebeh_refl; destruct ebeh; try exact Ek; congruence).
+        rewrite E. cbn [rbind]. fold o. rewrite Hcv. cbn [rbind]. rewrite Em. unfold explicit_b. rewrite Hb. cbn [rbind].
+        destruct b; [reflexivity|]. destruct (migrate (xe_font e) (xe_brick e) op conv); reflexivity.
+      + intros (Hms & _ & _ & _ & Hv). destruct (val_ok_conv _ _ _ Hv) as (w & Hw). fold o. rewrite Hw.
+        exact (known_write e ebeh c keys k v canon ser w ebeh_refl Ek Hms Hw).
     - intros _. unfold ser_plan, ebeh, ebeh_of. unfold kdesc in Ek. destruct keep; rewrite Ek; reflexivity.
   Qed.
 
-  Lemma plan_list_spec c keys : forall ps, (forall k v, In (k, v) ps -> known_prop_ok c k v) ->
-    plan_list e ebeh c keys ps = Ok (filter_map (wplan c) ps).
+  Lemma plan_list_spec c keys : forall ps, (forall k v, In (k, v) ps -> known_prop_ok c keys k v) ->
+    plan_list e ebeh c keys ps = Ok (filter_map (wplan c keys) ps).
   Proof.
     induction ps as [|[k v] ps IH]; intro H; [reflexivity|]. cbn [plan_list filter_map].
     rewrite (ser_plan_wplan c keys k v (H k v (or_introl eq_refl))). cbn [rbind].
-    rewrite IH by (intros k0 v0 Hin; apply H; now right). cbn [rbind]. destruct (wplan c (k, v)); reflexivity.
+    rewrite IH by (intros k0 v0 Hin; apply H; now right). cbn [rbind]. destruct (wplan c keys (k, v)); reflexivity.
+  Qed.
+
+  (* the element name of what is planned for a key *)
+  Lemma wname_wplan c keys k v pn w : known_prop_ok c keys k v -> wplan c keys (k, v) = Some (pn, w) -> wname c keys k = Some pn.
+  Proof.
+    unfold known_prop_ok, wplan, wname. cbn [fst snd]. destruct (kdesc c k) as [[[canon ser]|]| |cc|]; try contradiction.
+    - destruct (mig_of ser) as [[q op]|].
+      + intros (_ & _ & qd & qs & _ & _ & _ & conv & Hcv & Hmig). fold o. rewrite Hcv.
+        destruct (explicit_b c keys k q) eqn:Ex; [discriminate|]. destruct (Hmig eq_refl) as (nv & Hnv & _). rewrite Hnv.
+        intro E. inversion E. reflexivity.
+      + intros _. destruct (try_convert o v (dtype_vt (pd_type ser))); try discriminate. intro E. inversion E. reflexivity.
+    - destruct keep; [|discriminate]. intros _ E. inversion E. reflexivity.
   Qed.
 
   (* ---- the reader's step on an element *)
@@ -500,53 +580,72 @@ Section Node.
   Let ebeh := ebeh_of keep.
   Let dbeh := dbeh_of keep.
 
+  Lemma migrate_nonspecial ft bt op v w : migrate ft bt op v = Some w -> nonspecial w.
+  Proof.
+    destruct op, v; cbn [migrate]; try discriminate; intro H.
+    - inversion H; exact I.
+    - destruct (font_lookup ft n) as [[[fam wt] st]|]; [inversion H; exact I|discriminate].
+    - destruct (brick_lookup bt n) as [[[r g] b]|]; [inversion H; exact I|discriminate].
+    - inversion H; exact I.
+  Qed.
+
   (* what the writer wrote for a property that meets the hypotheses is an element the reader's step handles *)
-  Lemma wplan_simple c k v pn w : known_prop_ok e vc keep c k v -> wplan e keep c (k, v) = Some (pn, w) -> nonspecial w -> vc_ok vc w.
+  Lemma wplan_simple c keys k v pn w :
+    known_prop_ok e vc keep c keys k v -> wplan e keep c keys (k, v) = Some (pn, w) -> nonspecial w -> vc_ok vc w.
   Proof.
     unfold known_prop_ok, wplan. cbn [fst snd]. destruct (kdesc e c k) as [[[canon ser]|]| |cc|]; try contradiction.
-    - intros (_ & _ & _ & _ & Hv). destruct (try_convert (xe_o e) v (dtype_vt (pd_type ser))) as [w0| |cc|] eqn:Hc; try discriminate.
-      intros E Hnw. inversion E; subst pn w0. destruct (special_or v) as [Hs|Hn].
-      + rewrite (try_convert_special _ _ _ Hs) in Hc. exfalso. assert (Ev : v = w) by congruence. subst w. exact (special_nonspecial _ Hs Hnw).
-      + assert (Hv' : exists w', try_convert (xe_o e) v (dtype_vt (pd_type ser)) = Ok w' /\ vc_ok vc w' /\
-                               exists v', try_convert (xe_o e) (vc_norm vc w') (dtype_vt (pd_type canon)) = Ok v')
-          by (destruct v; try contradiction Hn; exact Hv).
-        destruct Hv' as (w' & Hw' & Hs' & _). rewrite Hc in Hw'. inversion Hw'; subst w'. exact Hs'.
+    - destruct (mig_of ser) as [[q op]|].
+      + intros (_ & _ & qd & qs & _ & _ & _ & conv & Hcv & Hmig). rewrite Hcv.
+        destruct (explicit_b e c keys k q); [discriminate|]. destruct (Hmig eq_refl) as (nv & Hnv & Hok & _). rewrite Hnv.
+        intros E _. inversion E; subst. exact Hok.
+      + intros (_ & _ & _ & _ & Hv). destruct (try_convert (xe_o e) v (dtype_vt (pd_type ser))) as [w0| |cc|] eqn:Hc; try discriminate.
+        intros E Hnw. inversion E; subst pn w0. destruct (special_or v) as [Hs|Hn].
+        * rewrite (try_convert_special _ _ _ Hs) in Hc. exfalso. assert (Ev : v = w) by congruence. subst w. exact (special_nonspecial _ Hs Hnw).
+        * assert (Hv' : exists w', try_convert (xe_o e) v (dtype_vt (pd_type ser)) = Ok w' /\ vc_ok vc w' /\
+                                 exists v', try_convert (xe_o e) (vc_norm vc w') (dtype_vt (pd_type canon)) = Ok v')
+            by (destruct v; try contradiction Hn; exact Hv).
+          destruct Hv' as (w' & Hw' & Hs' & _). rewrite Hc in Hw'. inversion Hw'; subst w'. exact Hs'.
     - destruct keep; [|discriminate]. intros Hs E Hnw. inversion E; subst. exact (Hs Hnw).
   Qed.
 
-  Lemma rd_ok_of c k v m dict p :
-    known_prop_ok e vc keep c k v -> k <> B "Name" -> wplan e keep c (k, v) = Some (p_pair p) -> p_ok e m dict p -> rd_ok e c p.
+  Lemma rd_ok_of c keys k v m dict p :
+    known_prop_ok e vc keep c keys k v -> k <> B "Name" -> wplan e keep c keys (k, v) = Some (p_pair p) -> p_ok e m dict p -> rd_ok e c p.
   Proof.
-    intros Hk Hkn Hw Hp. pose proof (wplan_simple c k v _ _ Hk Hw) as Hsw. revert Hk Hw.
+    intros Hk Hkn Hw Hp. pose proof (wplan_simple c keys k v _ _ Hk Hw) as Hsw. revert Hk Hw.
     unfold known_prop_ok, wplan, rd_ok. cbn [fst snd]. destruct (kdesc e c k) as [[[canon ser]|]| |cc|] eqn:Ek; try contradiction.
-    - intros (Hms & Hmc & (ser' & Hback) & Hnn & Hv).
-      destruct (try_convert (xe_o e) v (dtype_vt (pd_type ser))) as [w| |cc|] eqn:Hc; try discriminate.
-      intro E. unfold p_pair in E. inversion E as [[En Es]].
-      unfold kdesc, B. rewrite S_bytes, Hback. split; [exact Hmc|]. split; [exact Hnn|].
-      destruct (special_or v) as [Hs|Hn].
-      + rewrite (try_convert_special _ _ _ Hs) in Hc. inversion Hc as [Hvw]. rewrite <- Hvw in Es. clear Hvw.
-        destruct p as [pn r txt|pn cc h|pn w0 revs v0 tag inner]; cbn [p_src p_dval] in *.
-        * exists (VRef 0). split; [reflexivity|auto].
-        * exists (VBinaryString []). split; [|auto]. rewrite Es in Hv. exact Hv.
-        * exfalso. destruct Hp as (Hns & _). rewrite <- Es in Hns. exact (special_nonspecial _ Hs Hns).
-      + assert (Hv' : exists w', try_convert (xe_o e) v (dtype_vt (pd_type ser)) = Ok w' /\ vc_ok vc w' /\
-                               exists v', try_convert (xe_o e) (vc_norm vc w') (dtype_vt (pd_type canon)) = Ok v')
-          by (destruct v; try contradiction Hn; exact Hv).
-        destruct Hv' as (w' & Hw' & Hs' & v' & Hv''). rewrite Hc in Hw'. inversion Hw'; subst w'.
-        pose proof (try_convert_nonspecial _ _ _ _ Hn Hc) as Hnw.
+    - destruct (mig_of ser) as [[q op]|].
+      + (* a legacy property: the element carries the new name and the migrated value *)
+        intros (_ & _ & qd & qs & Hq & Hmq & Hnq & conv & Hcv & Hmig). rewrite Hcv.
+        destruct (explicit_b e c keys k q); [discriminate|]. destruct (Hmig eq_refl) as (nv & Hnv & Hok & v' & Hv'). rewrite Hnv.
+        intro E. unfold p_pair in E. inversion E as [[En Es]].
+        unfold kdesc, B. rewrite S_bytes, Hq. split; [exact Hmq|]. split; [exact Hnq|].
+        pose proof (migrate_nonspecial _ _ _ _ _ Hnv) as Hnw.
         rewrite (p_ok_dval_gen e vc m dict p Hp) by (rewrite <- Es; assumption). rewrite <- Es.
-        exists v'. split; [exact Hv''|]. intro Hsp. exfalso. exact (special_nonspecial _ Hsp Hnw).
+        exists v'. split; [exact Hv'|]. intro Hsp. exfalso. exact (special_nonspecial _ Hsp Hnw).
+      + intros (Hms & Hmc & (ser' & Hback) & Hnn & Hv).
+        destruct (try_convert (xe_o e) v (dtype_vt (pd_type ser))) as [w| |cc|] eqn:Hc; try discriminate.
+        intro E. unfold p_pair in E. inversion E as [[En Es]].
+        unfold kdesc, B. rewrite S_bytes, Hback. split; [exact Hmc|]. split; [exact Hnn|].
+        destruct (special_or v) as [Hs|Hn].
+        * rewrite (try_convert_special _ _ _ Hs) in Hc. inversion Hc as [Hvw]. rewrite <- Hvw in Es. clear Hvw.
+          destruct p as [pn r txt|pn cc h|pn w0 revs v0 tag inner]; cbn [p_src p_dval] in *.
+          -- exists (VRef 0). split; [reflexivity|auto].
+          -- exists (VBinaryString []). split; [|auto]. rewrite Es in Hv. exact Hv.
+          -- exfalso. destruct Hp as (Hns & _). rewrite <- Es in Hns. exact (special_nonspecial _ Hs Hns).
+        * assert (Hv' : exists w', try_convert (xe_o e) v (dtype_vt (pd_type ser)) = Ok w' /\ vc_ok vc w' /\
+                                 exists v', try_convert (xe_o e) (vc_norm vc w') (dtype_vt (pd_type canon)) = Ok v')
+            by (destruct v; try contradiction Hn; exact Hv).
+          destruct Hv' as (w' & Hw' & Hs' & v' & Hv''). rewrite Hc in Hw'. inversion Hw'; subst w'.
+          pose proof (try_convert_nonspecial _ _ _ _ Hn Hc) as Hnw.
+          rewrite (p_ok_dval_gen e vc m dict p Hp) by (rewrite <- Es; assumption). rewrite <- Es.
+          exists v'. split; [exact Hv''|]. intro Hsp. exfalso. exact (special_nonspecial _ Hsp Hnw).
     - destruct keep; [|discriminate]. intros _ E. unfold p_pair in E. inversion E as [[En Es]]. subst k. rewrite Ek. exact Hkn.
   Qed.
 
   (* the key an element comes back under is the key its property comes back under *)
-  Lemma tkey_written c k v pn w : known_prop_ok e vc keep c k v -> wplan e keep c (k, v) = Some (pn, w) -> tkey e keep c pn = tkey e keep c k.
-  Proof.
-    unfold known_prop_ok, wplan, tkey. cbn [fst snd]. destruct (kdesc e c k) as [[[canon ser]|]| |cc|] eqn:Ek; try contradiction.
-    - intros (_ & _ & (ser' & Hback) & _ & _). destruct (try_convert (xe_o e) v (dtype_vt (pd_type ser))); try discriminate.
-      intro E. inversion E; subst. unfold kdesc, B. rewrite S_bytes, Hback. reflexivity.
-    - destruct keep; [|discriminate]. intros _ E. inversion E; subst. rewrite Ek. reflexivity.
-  Qed.
+  Lemma tkey_written c keys k v pn w :
+    known_prop_ok e vc keep c keys k v -> wplan e keep c keys (k, v) = Some (pn, w) -> tkey e keep c pn = okey e keep c keys k.
+  Proof. intros Hk Hw. unfold okey. rewrite (wname_wplan e vc keep c keys k v pn w Hk Hw). reflexivity. Qed.
 
   (* the value the element ends up with, after the two rewrite passes *)
   Lemma final_val refs known c p t : rd_ok e c p ->
@@ -568,13 +667,15 @@ Section Node.
 End Node.
 
 (* ================================================================= (4) H2: the whole file *)
+(* the keys of an instance as the writer passes them around: sorted *)
+Definition ikeys (i : inst) : list bytes := List.map fst (bsort (i_props i)).
 (* the hypotheses on the DOM: every written instance has a readable `Name`, every property meets [known_prop_ok], and no two
    keys of one instance are spellings of one logical property *)
 Definition known_dom (e : xenv) (vc : vcodec (xe_o e)) (keep : bool) (d : cdom) (roots : list N) : Prop :=
   forall id i, In id (written d roots) -> find_inst d id = Some i ->
     name_ok e (i_class i) /\
-    (forall k v, In (k, v) (i_props i) -> known_prop_ok e vc keep (i_class i) k v) /\
-    one_spelling e keep (i_class i) (List.map fst (i_props i)).
+    (forall k v, In (k, v) (i_props i) -> known_prop_ok e vc keep (i_class i) (ikeys i) k v) /\
+    one_spelling e keep (i_class i) (ikeys i).
 
 (* what a value of a known property comes back as *)
 Definition value_known_back (e : xenv) (vc : vcodec (xe_o e)) (W : list N) (sty cty : N) (v v' : value) : Prop :=
@@ -583,24 +684,39 @@ Definition value_known_back (e : xenv) (vc : vcodec (xe_o e)) (W : list N) (sty 
   | VSharedString c => v' = VSharedString c
   | _ => norm_known (xe_o e) (vc_norm vc) sty cty v = Ok v'
   end.
-(* the decoded property table [ps'] of an instance of class [c] with property table [ps]: no key twice; every property the
-   database knows is there under its CANONICAL name with [norm_known] of its value (a Ref relabelled, a SharedString restored);
-   a property the database does not know is there under its own name as in the plain theorem when unknown properties are kept,
-   and nothing is said of it otherwise; and every key of [ps'] is the key [tkey] of some property of [ps]: with the default
-   behaviours ([keep] = false) the properties the database does not know are dropped *)
-Definition props_known_back (e : xenv) (vc : vcodec (xe_o e)) (keep : bool) (W : list N) (c : bytes) (ps ps' : list (bytes * value)) : Prop :=
+(* what the value of a legacy property comes back as, under the new name: converted, migrated, read back, converted *)
+Definition migrated_back (e : xenv) (vc : vcodec (xe_o e)) (op : migop) (sty cty : N) (v v' : value) : Prop :=
+  exists conv nv, try_convert (xe_o e) v sty = Ok conv /\ migrate (xe_font e) (xe_brick e) op conv = Some nv /\
+                  try_convert (xe_o e) (vc_norm vc nv) cty = Ok v'.
+(* the decoded property table [ps'] of an instance of class [c] with property table [ps] (keys [keys]): no key twice; every
+   property the database knows is there under its CANONICAL name with [norm_known] of its value (a Ref relabelled, a
+   SharedString restored); a LEGACY (migrating) property is gone under its own name and, unless the instance carries an explicit
+   value of the new property (which is then there as that property's clause says), the new canonical name holds the migrated
+   value; a property the database does not know is there under its own name as in the plain theorem when unknown properties are
+   kept, and nothing is said of it otherwise; and every key of [ps'] is the key [okey] of some property of [ps]: with the
+   default behaviours ([keep] = false) the properties the database does not know are dropped *)
+Definition props_known_back (e : xenv) (vc : vcodec (xe_o e)) (keep : bool) (W : list N) (c : bytes) (keys : list bytes)
+  (ps ps' : list (bytes * value)) : Prop :=
   NoDup (List.map fst ps') /\
   (forall k v, In (k, v) ps ->
      match kdesc e c k with
      | Ok (Some (canon, ser)) =>
-         exists v', bfind (B (pd_name canon)) ps' = Some v' /\
-                    value_known_back e vc W (dtype_vt (pd_type ser)) (dtype_vt (pd_type canon)) v v'
+         match mig_of ser with
+         | Some (q, op) =>
+             bfind k ps' = None /\
+             (explicit_b e c keys k q = false ->
+              exists qd qs v', find_desc_xml (xe_db e) (S_ c) q = Ok (Some (qd, qs)) /\ bfind (B (pd_name qd)) ps' = Some v' /\
+                               migrated_back e vc op (dtype_vt (pd_type ser)) (dtype_vt (pd_type qd)) v v')
+         | None =>
+             exists v', bfind (B (pd_name canon)) ps' = Some v' /\
+                        value_known_back e vc W (dtype_vt (pd_type ser)) (dtype_vt (pd_type canon)) v v'
+         end
      | _ => if keep then bfind k ps' = Some (value_back W (vc_norm vc) v) else True
      end) /\
-  (forall k', bfind k' ps' <> None -> exists k v, In (k, v) ps /\ tkey e keep c k = Some k').
+  (forall k', bfind k' ps' <> None -> exists k v, In (k, v) ps /\ okey e keep c keys k = Some k').
 Definition known_back (e : xenv) (vc : vcodec (xe_o e)) (keep : bool) (d : cdom) (W : list N) (id : N) (i' : inst) : Prop :=
   exists i, find_inst d id = Some i /\ i_ref i' = label W id /\ i_class i' = i_class i /\ i_name i' = i_name i /\
-            props_known_back e vc keep W (i_class i) (i_props i) (i_props i').
+            props_known_back e vc keep W (i_class i) (ikeys i) (i_props i) (i_props i').
 
 Lemma value_known_back_nonspecial e vc W sty cty v v' : nonspecial v ->
   (value_known_back e vc W sty cty v v' <-> norm_known (xe_o e) (vc_norm vc) sty cty v = Ok v').
@@ -617,8 +733,8 @@ Section Whole2.
   Lemma known_readable : readable e ebeh d roots.
   Proof.
     intros id i k v pn w Hid Hf Hkv Hs Hns. destruct (Hk id i Hid Hf) as (_ & Hp & _).
-    unfold ebeh in Hs. rewrite (ser_plan_wplan e vc keep _ _ k v (Hp k v Hkv)) in Hs. inversion Hs as [Hw].
-    exists (vc_norm vc w). apply vc_law; [|exact Hns]. exact (wplan_simple e vc keep _ k v pn w (Hp k v Hkv) Hw Hns).
+    unfold ebeh in Hs. fold (ikeys i) in Hs. rewrite (ser_plan_wplan e vc keep _ _ k v (Hp k v Hkv)) in Hs. inversion Hs as [Hw].
+    exists (vc_norm vc w). apply vc_law; [|exact Hns]. exact (wplan_simple e vc keep _ _ k v pn w (Hp k v Hkv) Hw Hns).
   Qed.
 
   Lemma key_not_name id i k v : In id W -> find_inst d id = Some i -> In (k, v) (i_props i) -> k <> B "Name".
@@ -634,9 +750,9 @@ Section Whole2.
     split; [apply refl_good; [apply name_p_reads|exact Hst]|].
     split; [cbn [reflD do_store]; unfold dbeh; rewrite Hpl; cbn [snd]; rewrite bfind_bupd, bytes_eqb_refl; reflexivity|].
     intros p k v (m0 & dict0 & Hpk) Hkv Hs.
-    unfold ebeh in Hs. rewrite (ser_plan_wplan e vc keep _ _ k v (Hp k v Hkv)) in Hs. inversion Hs as [Hw].
+    unfold ebeh in Hs. fold (ikeys i) in Hs. rewrite (ser_plan_wplan e vc keep _ _ k v (Hp k v Hkv)) in Hs. inversion Hs as [Hw].
     assert (Hrd : rd_ok e (i_class i) p).
-    { apply (rd_ok_of e vc keep (i_class i) k v m0 dict0 p (Hp k v Hkv)); [eapply key_not_name; eassumption|exact Hw|exact Hpk]. }
+    { apply (rd_ok_of e vc keep (i_class i) _ k v m0 dict0 p (Hp k v Hkv)); [eapply key_not_name; eassumption|exact Hw|exact Hpk]. }
     destruct (rd_ok_step e keep _ p Hrd) as [H1 H2].
     split; [apply refl_good; [eapply p_ok_reads; exact Hpk|exact H1]|apply refl_keeps_name, H2].
   Qed.
@@ -654,7 +770,7 @@ Section Whole2.
 
   Lemma node_facts m dict fn : node_ok e ebeh d m dict fn -> In (fn_id fn) W ->
     exists i, find_inst d (fn_id fn) = Some i /\ fn_class fn = i_class i /\ fn_name fn = i_name i /\
-      List.map p_pair (fn_props fn) = filter_map (wplan e keep (i_class i)) (bsort (i_props i)) /\
+      List.map p_pair (fn_props fn) = filter_map (wplan e keep (i_class i) (ikeys i)) (bsort (i_props i)) /\
       Forall (p_ok e m dict) (fn_props fn) /\ Forall (rd_ok e (i_class i)) (fn_props fn) /\
       NoDup (List.map p_name (fn_props (trfn fn))) /\ ~ In (B "Name") (List.map p_name (fn_props (trfn fn))).
   Proof.
@@ -663,13 +779,13 @@ Section Whole2.
     destruct Hin as (_ & _ & _ & Hprops). destruct (Hprops _ i HidW Hf) as [Hndk Hnn].
     assert (Hsorted : forall k v, In (k, v) (bsort (i_props i)) -> In (k, v) (i_props i)).
     { intros k v H. eapply Permutation_in; [apply bsort_permutation|exact H]. }
-    assert (E : List.map p_pair (fn_props fn) = filter_map (wplan e keep (i_class i)) (bsort (i_props i))).
-    { unfold planned, ebeh in Hps. rewrite (plan_list_spec e vc keep) in Hps by (intros k v H; apply Hp, Hsorted, H). now inversion Hps. }
+    assert (E : List.map p_pair (fn_props fn) = filter_map (wplan e keep (i_class i) (ikeys i)) (bsort (i_props i))).
+    { unfold planned, ebeh in Hps. fold (ikeys i) in Hps. rewrite (plan_list_spec e vc keep) in Hps by (intros k v H; apply Hp, Hsorted, H). now inversion Hps. }
     assert (Hrd : Forall (rd_ok e (i_class i)) (fn_props fn)).
     { apply Forall_forall. intros p Hpin.
-      assert (Hpp : In (p_pair p) (filter_map (wplan e keep (i_class i)) (bsort (i_props i)))) by (rewrite <- E; now apply in_map).
+      assert (Hpp : In (p_pair p) (filter_map (wplan e keep (i_class i) (ikeys i)) (bsort (i_props i)))) by (rewrite <- E; now apply in_map).
       apply in_filter_map in Hpp. destruct Hpp as ([k v] & Hkv & Hw). apply Hsorted in Hkv.
-      apply (rd_ok_of e vc keep (i_class i) k v m dict p (Hp k v Hkv)); [eapply key_not_name; eassumption|exact Hw|].
+      apply (rd_ok_of e vc keep (i_class i) _ k v m dict p (Hp k v Hkv)); [eapply key_not_name; eassumption|exact Hw|].
       rewrite Forall_forall in Hpok. now apply Hpok. }
     split; [exact Hf|]. split; [exact Hc|]. split; [exact Hn|]. split; [exact E|]. split; [exact Hpok|]. split; [exact Hrd|].
     cbn [trfn fn_props]. rewrite Hc. split.
@@ -682,11 +798,11 @@ Section Whole2.
       rewrite <- (List.map_id (filter_map _ _)). apply (nodup_filter_map fst _ (fun x => x)).
       + eapply Permutation_NoDup; [apply Permutation_sym, bsort_keys_perm|exact Hndk].
       + intros [k1 v1] [k2 v2] y1 y2 Ha Hb E1 E2 Ey. subst y2. cbn [fst].
-        destruct (wplan e keep (i_class i) (k1, v1)) as [[pn1 w1]|] eqn:W1; cbn [option_map fst] in E1; try discriminate.
-        destruct (wplan e keep (i_class i) (k2, v2)) as [[pn2 w2]|] eqn:W2; cbn [option_map fst] in E2; try discriminate.
-        apply Hsorted in Ha. apply Hsorted in Hb.
-        rewrite (tkey_written e vc keep _ k1 v1 pn1 w1 (Hp _ _ Ha) W1) in E1. rewrite (tkey_written e vc keep _ k2 v2 pn2 w2 (Hp _ _ Hb) W2) in E2.
-        apply (H1 k1 k2 y1); [eapply keys_in; exact Ha|eapply keys_in; exact Hb|exact E1|exact E2].
+        destruct (wplan e keep (i_class i) (ikeys i) (k1, v1)) as [[pn1 w1]|] eqn:W1; cbn [option_map fst] in E1; try discriminate.
+        destruct (wplan e keep (i_class i) (ikeys i) (k2, v2)) as [[pn2 w2]|] eqn:W2; cbn [option_map fst] in E2; try discriminate.
+        pose proof Ha as Ha'. pose proof Hb as Hb'. apply Hsorted in Ha. apply Hsorted in Hb.
+        rewrite (tkey_written e vc keep _ _ k1 v1 pn1 w1 (Hp _ _ Ha) W1) in E1. rewrite (tkey_written e vc keep _ _ k2 v2 pn2 w2 (Hp _ _ Hb) W2) in E2.
+        apply (H1 k1 k2 y1); [exact (keys_in _ _ _ Ha')|exact (keys_in _ _ _ Hb')|exact E1|exact E2].
     - intro Hc'. apply in_map_iff in Hc'. destruct Hc' as (p' & Ep & Hp'). apply in_filter_map in Hp'. destruct Hp' as (p & Hpin & Htr).
       rewrite Forall_forall in Hrd. exact (tr_not_name _ p p' (Hrd p Hpin) Htr Ep).
   Qed.
@@ -748,7 +864,7 @@ Section Whole3.
     assert (HinF' : In (trfn e keep fn) F') by (unfold F'; now apply in_map).
     rewrite Forall_forall in Hpok, Hrd.
     (* every property has its element, every element its property *)
-    assert (Helem : forall k v pn w, In (k, v) (i_props i) -> wplan e keep (i_class i) (k, v) = Some (pn, w) ->
+    assert (Helem : forall k v pn w, In (k, v) (i_props i) -> wplan e keep (i_class i) (ikeys i) (k, v) = Some (pn, w) ->
                       exists p, In p (fn_props fn) /\ p_name p = pn /\ p_src p = w).
     { intros k v pn w Hkv Hw.
       assert (Hpp : In (pn, w) (List.map p_pair (fn_props fn))) by (rewrite E; apply in_filter_map; exists (k, v); split; [now apply Hperm|exact Hw]).
@@ -761,18 +877,48 @@ Section Whole3.
       assert (Hp' : In (rename p t (rval e (i_class i) p)) (fn_props (trfn e keep fn))).
       { cbn [trfn fn_props]. rewrite Hc. apply in_filter_map. exists p. split; [exact Hpin|]. unfold tr. rewrite Ht. reflexivity. }
       pose proof (fin_lookup refs known F' labels_F' (trfn e keep fn) _ HinF' Hnd Hp') as Hl. rewrite rename_name, rename_final in Hl. exact Hl. }
+    (* nothing else *)
+    assert (Hthird : forall k', bfind k' (fin_props refs known F' (trfn e keep fn)) <> None ->
+                       exists k v, In (k, v) (i_props i) /\ okey e keep (i_class i) (ikeys i) k = Some k').
+    { intros k' Hk'. destruct (in_dec bytes_eq_dec k' (List.map p_name (fn_props (trfn e keep fn)))) as [Hi|Hni].
+      2:{ exfalso. apply Hk'. exact (fin_absent refs known F' labels_F' (trfn e keep fn) k' HinF' Hni). }
+      apply in_map_iff in Hi. destruct Hi as (p' & Ep' & Hp'). cbn [trfn fn_props] in Hp'. rewrite Hc in Hp'.
+      apply in_filter_map in Hp'. destruct Hp' as (p & Hpin & Htr). unfold tr in Htr.
+      destruct (tkey e keep (i_class i) (p_name p)) as [t|] eqn:Et; [|discriminate]. inversion Htr; subst p'. rewrite rename_name in Ep'. subst t.
+      assert (Hpp : In (p_pair p) (filter_map (wplan e keep (i_class i) (ikeys i)) (bsort (i_props i)))) by (rewrite <- E; now apply in_map).
+      apply in_filter_map in Hpp. destruct Hpp as ([k v] & Hkv & Hw). apply Hperm in Hkv. exists k, v. split; [exact Hkv|].
+      unfold p_pair in Hw. rewrite <- (tkey_written e vc keep _ _ k v _ _ (Hp k v Hkv) Hw). exact Et. }
     exists i. split; [exact Hf|]. split; [cbn [fin_node i_ref trfn fn_label]; symmetry; exact (label_fn d roots F (input_ok_0 _ _ Hin) HF_ids HF_labels fn Hfn)|].
     split; [exact Hc|]. split; [exact Hn|]. cbn [fin_node i_props].
-    split; [apply fin_nodup|]. split.
-    - (* the properties of the instance *)
-      intros k v Hkv. pose proof (Hp k v Hkv) as Hkp. pose proof Hkp as Hkp'. unfold known_prop_ok in Hkp'.
-      destruct (kdesc e (i_class i) k) as [[[canon ser]|]| |cc|] eqn:Ek; try contradiction.
+    split; [apply fin_nodup|]. split; [|exact Hthird].
+    (* the properties of the instance *)
+    intros k v Hkv. pose proof (Hp k v Hkv) as Hkp. pose proof Hkp as Hkp'. unfold known_prop_ok in Hkp'.
+    destruct (kdesc e (i_class i) k) as [[[canon ser]|]| |cc|] eqn:Ek; try contradiction.
+    - destruct (mig_of ser) as [[q op]|] eqn:Emig.
+      + (* a legacy property *)
+        destruct Hkp' as (_ & Hfree & qd & qs & Hq & Hmq & Hnq & conv & Hcv & Hmig). split.
+        * destruct (bfind k (fin_props refs known F' (trfn e keep fn))) eqn:Eb; [|reflexivity]. exfalso.
+          destruct (Hthird k ltac:(rewrite Eb; discriminate)) as (k2 & v2 & Hkv2 & Hk2).
+          apply (Hfree k2); [|exact Hk2]. unfold ikeys. eapply keys_in. apply Hperm. exact Hkv2.
+        * intro Hex. destruct (Hmig Hex) as (nv & Hnv & Hoknv & v' & Hv').
+          assert (Hw : wplan e keep (i_class i) (ikeys i) (k, v) = Some (B q, nv))
+            by (unfold wplan; cbn [fst snd]; rewrite Ek, Hcv, Emig, Hex, Hnv; reflexivity).
+          destruct (Helem k v _ _ Hkv Hw) as (p & Hpin & Epn & Eps).
+          assert (Ht : tkey e keep (i_class i) (p_name p) = Some (B (pd_name qd)))
+            by (rewrite Epn; unfold tkey, kdesc, B; rewrite S_bytes, Hq; reflexivity).
+          exists qd, qs. eexists. split; [exact Hq|]. split; [exact (Hkept p _ Hpin Ht)|].
+          pose proof (migrate_nonspecial _ _ _ _ _ Hnv) as Hnw. pose proof (Hrd p Hpin) as Hrdp.
+          destruct p as [pn r txt|pn c0 h|pn w0 revs v0 tag inner]; cbn [p_src] in Eps; subst nv; try contradiction Hnw.
+          pose proof (p_ok_dval_gen e vc m dict _ (Hpok _ Hpin) Hnw Hoknv) as Hdv. cbn [p_dval p_src] in Hdv. subst v0.
+          exists conv, w0. split; [exact Hcv|]. split; [exact Hnv|].
+          unfold rval. cbn [p_name] in *. subst pn. unfold kdesc, B. rewrite S_bytes, Hq. cbn [p_dval]. rewrite Hv'. reflexivity.
       + destruct Hkp' as (Hms & Hmc & (ser' & Hback) & Hnn' & Hv).
         destruct (val_ok_conv e vc _ _ _ Hv) as (w & Hcv).
-        assert (Hw : wplan e keep (i_class i) (k, v) = Some (B (pd_name ser), w)) by (unfold wplan; cbn [fst snd]; rewrite Ek, Hcv; reflexivity).
+        assert (Hw : wplan e keep (i_class i) (ikeys i) (k, v) = Some (B (pd_name ser), w))
+          by (unfold wplan; cbn [fst snd]; rewrite Ek, Hcv, Emig; reflexivity).
         destruct (Helem k v _ _ Hkv Hw) as (p & Hpin & Epn & Eps).
         assert (Ht : tkey e keep (i_class i) (p_name p) = Some (B (pd_name canon))).
-        { rewrite Epn, (tkey_written e vc keep _ k v _ w Hkp Hw). unfold tkey. rewrite Ek. reflexivity. }
+        { rewrite Epn. unfold tkey, kdesc, B. rewrite S_bytes, Hback. reflexivity. }
         eexists. split; [exact (Hkept p _ Hpin Ht)|].
         pose proof (elem_back p (Hpok p Hpin)) as Hvb. pose proof (Hrd p Hpin) as Hrdp.
         destruct (special_or v) as [Hs|Hns].
@@ -782,34 +928,25 @@ Section Whole3.
         * apply (value_known_back_nonspecial e vc W _ _ v _ Hns). pose proof (try_convert_nonspecial _ _ _ _ Hns Hcv) as Hnw.
           destruct p as [pn r txt|pn c0 h|pn w0 revs v0 tag inner]; cbn [p_src] in Eps; subst w; try contradiction Hnw.
           unfold norm_known. rewrite Hcv. cbn [rbind].
-          assert (Hsw : vc_ok vc w0) by (exact (wplan_simple e vc keep _ k v _ w0 Hkp Hw Hnw)).
+          assert (Hsw : vc_ok vc w0) by (exact (wplan_simple e vc keep _ _ k v _ w0 Hkp Hw Hnw)).
           pose proof (p_ok_dval_gen e vc m dict _ (Hpok _ Hpin) Hnw Hsw) as Hdv. cbn [p_dval p_src] in Hdv. subst v0.
           unfold rd_ok in Hrdp. unfold rval. cbn [p_name] in *. subst pn. unfold kdesc in *. unfold B in *. rewrite S_bytes in *. rewrite Hback in *.
           destruct Hrdp as (_ & _ & conv & Hconv & _). cbn [p_dval] in *. rewrite Hconv.
           destruct w0; try contradiction Hnw; reflexivity.
-      + assert (Hcase : keep = true \/ keep = false) by (clear; destruct keep; auto).
-        destruct Hcase as [Ekeep|Ekeep]; [|rewrite Ekeep; exact I].
-        assert (Hif : forall (A : Type) (a b : A), (if keep then a else b) = a) by (intros; rewrite Ekeep; reflexivity).
-        rewrite (Hif Prop).
-        assert (Hw : wplan e keep (i_class i) (k, v) = Some (k, v)) by (unfold wplan; cbn [fst snd]; rewrite Ek; apply Hif).
-        destruct (Helem k v _ _ Hkv Hw) as (p & Hpin & Epn & Eps).
-        assert (Ht : tkey e keep (i_class i) (p_name p) = Some k) by (rewrite Epn; unfold tkey; rewrite Ek; apply Hif).
-        rewrite (Hkept p _ Hpin Ht).
-        pose proof (elem_back p (Hpok p Hpin)) as Hvb. f_equal.
-        rewrite (Hif Prop) in Hkp'.
-        destruct p as [pn r txt|pn c0 h|pn w0 revs v0 tag inner]; cbn [p_src] in Eps; subst v; cbn [p_src vback value_back] in *; try exact Hvb.
-        destruct (Hpok _ Hpin) as (Hns' & _). rewrite value_back_nonspecial by exact Hns'.
-        unfold rval. cbn [p_name] in *. subst pn. rewrite Ek.
-        exact (p_ok_dval_gen e vc m dict _ (Hpok _ Hpin) Hns' (Hkp' Hns')).
-    - (* nothing else *)
-      intros k' Hk'. destruct (in_dec bytes_eq_dec k' (List.map p_name (fn_props (trfn e keep fn)))) as [Hi|Hni].
-      2:{ exfalso. apply Hk'. exact (fin_absent refs known F' labels_F' (trfn e keep fn) k' HinF' Hni). }
-      apply in_map_iff in Hi. destruct Hi as (p' & Ep' & Hp'). cbn [trfn fn_props] in Hp'. rewrite Hc in Hp'.
-      apply in_filter_map in Hp'. destruct Hp' as (p & Hpin & Htr). unfold tr in Htr.
-      destruct (tkey e keep (i_class i) (p_name p)) as [t|] eqn:Et; [|discriminate]. inversion Htr; subst p'. rewrite rename_name in Ep'. subst t.
-      assert (Hpp : In (p_pair p) (filter_map (wplan e keep (i_class i)) (bsort (i_props i)))) by (rewrite <- E; now apply in_map).
-      apply in_filter_map in Hpp. destruct Hpp as ([k v] & Hkv & Hw). apply Hperm in Hkv. exists k, v. split; [exact Hkv|].
-      unfold p_pair in Hw. rewrite <- (tkey_written e vc keep _ k v _ _ (Hp k v Hkv) Hw). exact Et.
+    - assert (Hcase : keep = true \/ keep = false) by (clear; destruct keep; auto).
+      destruct Hcase as [Ekeep|Ekeep]; [|rewrite Ekeep; exact I].
+      assert (Hif : forall (A : Type) (a b : A), (if keep then a else b) = a) by (intros; rewrite Ekeep; reflexivity).
+      rewrite (Hif Prop).
+      assert (Hw : wplan e keep (i_class i) (ikeys i) (k, v) = Some (k, v)) by (unfold wplan; cbn [fst snd]; rewrite Ek; apply Hif).
+      destruct (Helem k v _ _ Hkv Hw) as (p & Hpin & Epn & Eps).
+      assert (Ht : tkey e keep (i_class i) (p_name p) = Some k) by (rewrite Epn; unfold tkey; rewrite Ek; apply Hif).
+      rewrite (Hkept p _ Hpin Ht).
+      pose proof (elem_back p (Hpok p Hpin)) as Hvb. f_equal.
+      rewrite (Hif Prop) in Hkp'.
+      destruct p as [pn r txt|pn c0 h|pn w0 revs v0 tag inner]; cbn [p_src] in Eps; subst v; cbn [p_src vback value_back] in *; try exact Hvb.
+      destruct (Hpok _ Hpin) as (Hns' & _). rewrite value_back_nonspecial by exact Hns'.
+      unfold rval. cbn [p_name] in *. subst pn. rewrite Ek.
+      exact (p_ok_dval_gen e vc m dict _ (Hpok _ Hpin) Hns' (Hkp' Hns')).
   Qed.
 End Whole3.
 
@@ -866,6 +1003,43 @@ Proof.
 Qed.
 Print Assumptions xml_roundtrip_known.
 
+(* ---- a legacy property next to an explicit value of the new property: the explicit value stays.  When the writer finds an
+   explicit new value ([explicit_b] = true) the instance carries ANOTHER key whose canonical name is the migration target's, and
+   (by that key's own clause of [props_known_back]) the new canonical name holds [norm_known] of THAT key's value; the statement
+   speaks of the property map, so the order in which the instance lists the two is irrelevant
+   (two_spellings_listing_irrelevant below; Proofs/MigratePaths.v xml_read_explicit_then_legacy / xml_read_legacy_then_explicit) *)
+Lemma explicit_key e c keys k q qd qs :
+  find_desc_xml (xe_db e) (S_ c) q = Ok (Some (qd, qs)) ->
+  (forall k2, In k2 keys -> exists r, kdesc e c k2 = Ok r) ->
+  explicit_b e c keys k q = true ->
+  exists k2 canon2 ser2, In k2 keys /\ k2 <> k /\ kdesc e c k2 = Ok (Some (canon2, ser2)) /\ pd_name canon2 = pd_name qd.
+Proof.
+  intros Hq Ht Hex. unfold explicit_b in Hex. rewrite (Xml.has_explicit_new_value_spec e c k q qd qs keys Hq Ht) in Hex.
+  destruct (existsb (Xml.other_key_is (xe_db e) c k (pd_name qd)) keys) eqn:Ee; [|discriminate].
+  apply existsb_exists in Ee. destruct Ee as (k2 & Hin & Ho). unfold Xml.other_key_is, Xml.canon_name_xml in Ho.
+  apply andb_true_iff in Ho. destruct Ho as [Hne Hc].
+  destruct (Ht k2 Hin) as (r & Hr). unfold kdesc in Hr. rewrite Hr in Hc. destruct r as [[canon2 ser2]|]; [|discriminate].
+  exists k2, canon2, ser2. split; [exact Hin|]. split; [|split; [exact Hr|now apply String.eqb_eq]].
+  intro E. subst k2. rewrite bytes_eqb_refl in Hne. discriminate.
+Qed.
+Theorem explicit_value_stays e vc keep W c keys ps ps' k v canon ser q op qd qs :
+  props_known_back e vc keep W c keys ps ps' ->
+  (forall k2, In k2 keys -> exists v2, In (k2, v2) ps) -> (forall k2, In k2 keys -> exists r, kdesc e c k2 = Ok r) ->
+  In (k, v) ps -> kdesc e c k = Ok (Some (canon, ser)) -> mig_of ser = Some (q, op) ->
+  find_desc_xml (xe_db e) (S_ c) q = Ok (Some (qd, qs)) -> explicit_b e c keys k q = true ->
+  bfind k ps' = None /\
+  exists k2 v2 canon2 ser2, In (k2, v2) ps /\ k2 <> k /\ kdesc e c k2 = Ok (Some (canon2, ser2)) /\ pd_name canon2 = pd_name qd /\
+    (mig_of ser2 = None ->
+     exists v', bfind (B (pd_name qd)) ps' = Some v' /\
+                value_known_back e vc W (dtype_vt (pd_type ser2)) (dtype_vt (pd_type canon2)) v2 v').
+Proof.
+  intros (_ & Hprops & _) Hkeys Ht Hkv Hk Hm Hq Hex. split.
+  - pose proof (Hprops k v Hkv) as H. rewrite Hk, Hm in H. exact (proj1 H).
+  - destruct (explicit_key e c keys k q qd qs Hq Ht Hex) as (k2 & canon2 & ser2 & Hin2 & Hne & Hk2 & Hn2).
+    destruct (Hkeys k2 Hin2) as (v2 & Hkv2). exists k2, v2, canon2, ser2. repeat split; try assumption.
+    intro Hm2. pose proof (Hprops k2 v2 Hkv2) as H. rewrite Hk2, Hm2 in H. rewrite <- Hn2. exact H.
+Qed.
+
 (* ================================================================= (5) H3: the database hypotheses as an executable check *)
 From RbxVerif Require Import DbFacts.
 From RbxVerif Require Database.
@@ -900,11 +1074,20 @@ Qed.
 (* the serialized name, looked up again from the same class, leads back to the same canonical descriptor *)
 Definition back_b (d : db) (cn : string) (canon ser : pdesc) : bool :=
   match find_desc_xml d cn (pd_name ser) with Ok (Some (canon', _)) => pdesc_eqb canon canon' | _ => false end.
-(* the key [k] met on an instance of class [cn] satisfies the database part of [known_prop_ok] unless it migrates *)
+(* the target of a migration, looked up from the same class, is a canonical, non-migrating property other than `Name` *)
+Definition mig_target_b (d : db) (cn q : string) : bool :=
+  match find_desc_xml d cn q with
+  | Ok (Some (qd, _)) => negb (is_migrate qd) && negb (String.eqb (pd_name qd) "Name")
+  | _ => false
+  end.
+(* the key [k] met on an instance of class [cn] satisfies the database part of [known_prop_ok] *)
 Definition key_ok_b (d : db) (cn k : string) : bool :=
   match find_desc_xml d cn k with
   | Ok (Some (canon, ser)) =>
-      is_migrate ser || is_migrate canon || (negb (String.eqb (pd_name canon) "Name") && back_b d cn canon ser)
+      match mig_of ser with
+      | Some (q, _) => mig_target_b d cn q
+      | None => is_migrate canon || (negb (String.eqb (pd_name canon) "Name") && back_b d cn canon ser)
+      end
   | Ok None => true
   | _ => false
   end.
@@ -967,11 +1150,27 @@ Proof.
   unfold db_keys_ok in Hchk. rewrite forallb_forall in Hchk. specialize (Hchk c Hc). rewrite forallb_forall in Hchk. specialize (Hchk p Hp).
   apply orb_true_iff in Hchk. destruct Hchk as [Hchk|Hchk]; [|elim Hexc; now apply mem_pair_in].
   apply orb_true_iff in Hchk. destruct Hchk as [Hchk|Hchk]; [apply String.eqb_eq in Hchk; contradiction|].
-  unfold key_ok_b in Hchk. rewrite Hl in Hchk. apply is_migrate_nonmig in Hms. apply is_migrate_nonmig in Hmc. rewrite Hms, Hmc in Hchk.
+  unfold key_ok_b in Hchk. rewrite Hl in Hchk. apply mig_of_none in Hms. apply is_migrate_nonmig in Hmc. rewrite Hms, Hmc in Hchk.
   cbn [orb] in Hchk. apply andb_true_iff in Hchk. destruct Hchk as [H1 H2]. split.
   - apply negb_true_iff in H1. now apply String.eqb_neq.
   - unfold back_b in H2. destruct (find_desc_xml d (cd_name c) (pd_name ser)) as [[[canon' ser']|]| |cc|]; try discriminate.
     apply pdesc_eqb_sound in H2. subst canon'. eauto.
+Qed.
+Theorem db_keys_ok_sound_mig d exc : db_coherent d = true -> db_keys_ok d exc = true ->
+  forall cn k canon ser q op, find_desc_xml d cn k = Ok (Some (canon, ser)) -> k <> "Name" -> ~ In (cn, k) exc ->
+    mig_of ser = Some (q, op) ->
+    exists qd qs, find_desc_xml d cn q = Ok (Some (qd, qs)) /\ nonmig qd /\ pd_name qd <> "Name".
+Proof.
+  intros Hco Hchk cn k canon ser q op Hl Hk Hexc Hm.
+  destruct (lookup_visible d cn k _ Hco Hl) as (c & p & _ & Hc & <- & Hp & <-).
+  unfold db_keys_ok in Hchk. rewrite forallb_forall in Hchk. specialize (Hchk c Hc). rewrite forallb_forall in Hchk. specialize (Hchk p Hp).
+  apply orb_true_iff in Hchk. destruct Hchk as [Hchk|Hchk]; [|elim Hexc; now apply mem_pair_in].
+  apply orb_true_iff in Hchk. destruct Hchk as [Hchk|Hchk]; [apply String.eqb_eq in Hchk; contradiction|].
+  unfold key_ok_b in Hchk. rewrite Hl, Hm in Hchk. unfold mig_target_b in Hchk.
+  destruct (find_desc_xml d (cd_name c) q) as [[[qd qs]|]| |cc|]; try discriminate.
+  apply andb_true_iff in Hchk. destruct Hchk as [H1 H2]. exists qd, qs. split; [reflexivity|]. split.
+  - apply is_migrate_nonmig. now apply negb_true_iff.
+  - apply negb_true_iff in H2. now apply String.eqb_neq.
 Qed.
 Theorem db_names_ok_sound e : db_names_ok (xe_db e) = true -> forall c, name_ok e c.
 Proof.
@@ -991,10 +1190,17 @@ Definition db_dom (e : xenv) (vc : vcodec (xe_o e)) (keep : bool) (exc : list (s
     (forall k v, In (k, v) (i_props i) ->
        S_ k <> "Name" /\ ~ In (S_ (i_class i), S_ k) exc /\
        match kdesc e (i_class i) k with
-       | Ok (Some (canon, ser)) => nonmig ser /\ nonmig canon /\ val_ok e vc (dtype_vt (pd_type ser)) (dtype_vt (pd_type canon)) v
+       | Ok (Some (canon, ser)) =>
+           match mig_of ser with
+           | Some (q, op) =>
+               (forall k2, In k2 (ikeys i) -> okey e keep (i_class i) (ikeys i) k2 <> Some k) /\
+               forall qd qs, find_desc_xml (xe_db e) (S_ (i_class i)) q = Ok (Some (qd, qs)) ->
+                 mig_val_ok e vc op (dtype_vt (pd_type ser)) (dtype_vt (pd_type qd)) (explicit_b e (i_class i) (ikeys i) k q) v
+           | None => nonmig ser /\ nonmig canon /\ val_ok e vc (dtype_vt (pd_type ser)) (dtype_vt (pd_type canon)) v
+           end
        | _ => if keep then nonspecial v -> vc_ok vc v else True
        end) /\
-    one_spelling e keep (i_class i) (List.map fst (i_props i)).
+    one_spelling e keep (i_class i) (ikeys i).
 
 Lemma db_dom_known e vc keep exc d roots :
   db_coherent (xe_db e) = true -> db_keys_ok (xe_db e) exc = true -> db_names_ok (xe_db e) = true ->
@@ -1004,9 +1210,15 @@ Proof.
   split; [apply db_names_ok_sound, Hnames|]. split; [|exact H1].
   intros k v Hkv. destruct (Hp k v Hkv) as (Hkn & Hexc & Hv). unfold known_prop_ok.
   destruct (coherent_lookups_total (xe_db e) Hco (S_ (i_class i)) (S_ k)) as [_ (r & Hr)]. unfold kdesc in *. rewrite Hr in *.
-  destruct r as [[canon ser]|]; [|exact Hv]. destruct Hv as (Hms & Hmc & Hv).
-  destruct (db_keys_ok_sound (xe_db e) exc Hco Hkeys _ _ canon ser Hr Hkn Hexc Hms Hmc) as [Hnn Hback].
-  repeat split; assumption.
+  destruct r as [[canon ser]|]; [|exact Hv]. destruct (mig_of ser) as [[q op]|] eqn:Em.
+  - destruct Hv as (Hfree & Hv).
+    destruct (db_keys_ok_sound_mig (xe_db e) exc Hco Hkeys _ _ canon ser q op Hr Hkn Hexc Em) as (qd & qs & Hq & Hmq & Hnq).
+    split; [|split; [exact Hfree|exists qd, qs; repeat split; try assumption; exact (Hv qd qs Hq)]].
+    eexists. apply (Xml.has_explicit_new_value_spec e (i_class i) k q qd qs (ikeys i) Hq).
+    intros k2 _. exact (proj2 (coherent_lookups_total (xe_db e) Hco (S_ (i_class i)) (S_ k2))).
+  - destruct Hv as (Hms & Hmc & Hv).
+    destruct (db_keys_ok_sound (xe_db e) exc Hco Hkeys _ _ canon ser Hr Hkn Hexc Hms Hmc) as [Hnn Hback].
+    repeat split; assumption.
 Qed.
 
 Theorem xml_roundtrip_known_db e vc keep exc d roots evs revs :
@@ -1019,6 +1231,7 @@ Proof.
   intros Hco Hkeys Hnames Hin Hh Hd. apply xml_roundtrip_known; try assumption. eapply db_dom_known; eassumption.
 Qed.
 Print Assumptions xml_roundtrip_known_db.
+Print Assumptions explicit_value_stays.
 
 (* ---- the bundled database: every key of every class leads back, except two *)
 Definition bundled_exceptions : list (string * string) := [("MaterialService", "Use2022Materials"); ("Sound", "MaxDistance")].
@@ -1043,6 +1256,20 @@ Qed.
 Print Assumptions xml_roundtrip_known_bundled.
 Print Assumptions bundled_keys_ok.
 
+(* (c) [one_spelling] is decidable per instance *)
+Definition one_spelling_b (e : xenv) (keep : bool) (c : bytes) (keys : list bytes) : bool :=
+  forallb (fun k1 => forallb (fun k2 => bytes_eqb k1 k2 ||
+                                        match okey e keep c keys k1, okey e keep c keys k2 with
+                                        | Some t1, Some t2 => negb (bytes_eqb t1 t2)
+                                        | _, _ => true
+                                        end) keys) keys.
+Lemma one_spelling_b_sound e keep c keys : one_spelling_b e keep c keys = true -> one_spelling e keep c keys.
+Proof.
+  unfold one_spelling_b. intros H k1 k2 t H1 H2 T1 T2. rewrite forallb_forall in H. specialize (H k1 H1). rewrite forallb_forall in H.
+  specialize (H k2 H2). rewrite T1, T2, bytes_eqb_refl in H. cbn [negb] in H. rewrite orb_false_r in H. now apply beqb_true_iff.
+Qed.
+
+
 (* ================================================================= (6) non-vacuity *)
 Open Scope N_scope.
 Set Warnings "-unused-intro-pattern".
@@ -1060,14 +1287,14 @@ Definition db_k : db := mkDb
       mkPD "Target" (DValue 20) (KCanon PSerializes);
       mkPD "Mesh" (DValue 23) (KCanon PSerializes);
       mkPD "BrickColor" (DValue 3) (KCanon (PMigrate "Color" MigBrick))] []] [].
-Definition e_k : xenv := mkXE db_k [] [] o_k hash_k.
+Definition e_k : xenv := mkXE db_k [] [(194, (163, 162, 165))] o_k hash_k.
 Definition d_k : cdom :=
   [mkInst 1 0 (B "Part") (B "p")
      [(B "Size", VVector3 (mkV3 F32_ONE F32_NNAN F32_ZERO)); (B "Color", VColor3 F32_ONE F32_HALF F32_ZERO); (B "Target", VRef 2);
-      (B "Mesh", VSharedString (B "xyz")); (B "Mystery", VBool true); (B "archivable", VBool false)];
-   mkInst 2 1 (B "Part") (B " kid ") [(B "size", VVector3 (mkV3 F32_HALF F32_ONE F32_ZERO)); (B "Target", VRef 1); (B "Transparency", VFloat32 F32_HALF)];
+      (B "Mesh", VSharedString (B "xyz")); (B "Mystery", VBool true); (B "archivable", VBool false); (B "BrickColor", VBrickColor 194)];
+   mkInst 2 1 (B "Part") (B " kid ")
+     [(B "size", VVector3 (mkV3 F32_HALF F32_ONE F32_ZERO)); (B "Target", VRef 1); (B "Transparency", VFloat32 F32_HALF); (B "BrickColor", VBrickColor 194)];
    mkInst 3 1 (B "Gizmo") (B "g") [(B "Whatever", VInt32 5); (B "Up", VRef 1)]].
-
 Lemma o_k_float_laws : float_laws o_k.
 Proof. split; [exact o1_float_text_law|]. intros x t _ _ _ H. discriminate H. Qed.
 Lemma e_k_hash_ok : hash_ok e_k.
@@ -1075,43 +1302,63 @@ Proof. exact e_rt_hash_ok. Qed.
 Definition vc_k : vcodec (xe_o e_k) := simple_codec (xe_o e_k) o_k_float_laws.
 
 Ltac kdesc_compute :=
-  match goal with |- context [kdesc ?e ?c ?k] => let r := eval vm_compute in (kdesc e c k) in change (kdesc e c k) with r; cbv iota beta end.
+  match goal with |- context [kdesc ?e ?c ?k] => let r := eval vm_compute in (kdesc e c k) in change (kdesc e c k) with r; cbv iota beta; cbn [mig_of pd_kind] end.
+Ltac vc_ok_solve := vm_compute; repeat split; first [exact I|reflexivity|discriminate].
 Ltac val_ok_solve :=
   cbn [val_ok];
   first [ exact I | reflexivity
-        | eexists; split; [vm_compute; reflexivity|]; split; [vm_compute; repeat split; first [exact I|reflexivity|discriminate]|eexists; vm_compute; reflexivity] ].
+        | eexists; split; [vm_compute; reflexivity|]; split; [vc_ok_solve|eexists; vm_compute; reflexivity] ].
+Ltac mig_solve :=
+  split;
+  [ let k2 := fresh "k2" in let Hk2 := fresh "Hk2" in
+    intros k2 Hk2; vm_compute in Hk2; repeat (destruct Hk2 as [<-|Hk2]); try contradiction; vm_compute; discriminate
+  | let qd := fresh "qd" in let qs := fresh "qs" in let Hq := fresh "Hq" in let Hex := fresh "Hex" in
+    intros qd qs Hq; vm_compute in Hq; inversion Hq; subst qd qs; clear Hq; unfold mig_val_ok; eexists; split; [vm_compute; reflexivity|];
+    intro Hex;
+    first [ vm_compute in Hex; discriminate Hex
+          | eexists; split; [vm_compute; reflexivity|]; split; [vc_ok_solve|eexists; vm_compute; reflexivity] ] ].
+Ltac prop_solve keep :=
+  first [ split; [exact I|split; [exact I|val_ok_solve]]
+        | mig_solve
+        | destruct keep; [intros _; vc_ok_solve|exact I]
+        | intros _; vc_ok_solve | exact I ].
 
 Lemma d_k_dom keep : db_dom e_k vc_k keep [] d_k [1].
 Proof.
   assert (HW : written d_k [1] = [1; 2; 3]) by reflexivity.
   intros id i Hid Hf. rewrite HW in Hid. cbn [In] in Hid.
-  destruct Hid as [<-|[<-|[<-|[]]]]; vm_compute in Hf; inversion Hf; subst i; cbn [i_class i_props]; split.
-  all: try (intros k v Hkv; cbn [In] in Hkv;
-            repeat (destruct Hkv as [Hkv|Hkv]; [inversion Hkv; subst k v; clear Hkv|]); try contradiction;
-            (split; [vm_compute; discriminate|]); (split; [intros []|]); kdesc_compute;
-            first [ split; [exact I|split; [exact I|val_ok_solve]] | destruct keep; [intros _; vm_compute; repeat split; first [exact I|reflexivity|discriminate]|exact I] ]).
-  all: intros k1 k2 t H1 H2 T1 T2; cbn [List.map fst In] in H1, H2.
-  all: repeat match goal with H : _ \/ _ |- _ => destruct H | H : False |- _ => contradiction end; subst; try reflexivity; exfalso.
-  all: destruct keep; vm_compute in T1, T2; congruence.
+  destruct keep.
+  all: destruct Hid as [<-|[<-|[<-|[]]]]; vm_compute in Hf; inversion Hf; subst i; cbn [i_class i_props]; split.
+  all: try (apply one_spelling_b_sound; vm_compute; reflexivity).
+  all: intros k v Hkv; cbn [In] in Hkv;
+       repeat (destruct Hkv as [Hkv|Hkv]; [inversion Hkv; subst k v; clear Hkv|]); try contradiction;
+       (split; [vm_compute; discriminate|]); (split; [intros []|]); kdesc_compute.
+  all: first [ split; [exact I|split; [exact I|val_ok_solve]] | mig_solve | intros _; vc_ok_solve | exact I ].
 Qed.
 
 Definition d_k_back : cdom :=
   [mkInst 1 0 (B "Part") (B "p")
      [(B "Mesh", VSharedString (B "xyz")); (B "Target", VRef 2); (B "Archivable", VBool false);
       (B "Size", VVector3 (mkV3 F32_ONE F32_NAN F32_ZERO)); (B "Color", VColor3uint8 255 128 0)];
-   mkInst 2 1 (B "Part") (B " kid ") [(B "Target", VRef 1); (B "Size", VVector3 (mkV3 F32_HALF F32_ONE F32_ZERO)); (B "Transparency", VFloat32 F32_HALF)];
+   mkInst 2 1 (B "Part") (B " kid ")
+     [(B "Target", VRef 1); (B "Size", VVector3 (mkV3 F32_HALF F32_ONE F32_ZERO)); (B "Transparency", VFloat32 F32_HALF);
+      (B "Color", VColor3uint8 163 162 165)];
    mkInst 3 1 (B "Gizmo") (B "g") []].
 Definition d_k_back_keep : cdom :=
   [mkInst 1 0 (B "Part") (B "p")
      [(B "Mesh", VSharedString (B "xyz")); (B "Target", VRef 2); (B "Archivable", VBool false);
       (B "Size", VVector3 (mkV3 F32_ONE F32_NAN F32_ZERO)); (B "Mystery", VBool true); (B "Color", VColor3uint8 255 128 0)];
-   mkInst 2 1 (B "Part") (B " kid ") [(B "Target", VRef 1); (B "Size", VVector3 (mkV3 F32_HALF F32_ONE F32_ZERO)); (B "Transparency", VFloat32 F32_HALF)];
+   mkInst 2 1 (B "Part") (B " kid ")
+     [(B "Target", VRef 1); (B "Size", VVector3 (mkV3 F32_HALF F32_ONE F32_ZERO)); (B "Transparency", VFloat32 F32_HALF);
+      (B "Color", VColor3uint8 163 162 165)];
    mkInst 3 1 (B "Gizmo") (B "g") [(B "Up", VRef 1); (B "Whatever", VInt32 5)]].
 
 (* H2 / H3 (generic check) are not vacuous: a database with a superclass, aliases (`size`, `archivable`, `Color3uint8`), SerializesAs
    with and without a change of type, a Ref and a SharedString property and a migrating property (not used); a DOM with a
    canonical spelling and an alias spelling, a Color3 that is quantised, a NaN that is canonicalised, Refs both ways, a
-   SharedString, a property the database does not know and an instance of a class it does not know *)
+   SharedString, a property the database does not know and an instance of a class it does not know; a legacy BrickColor next to
+   an explicit Color (instance 1: the explicit value stays) and a legacy BrickColor alone (instance 2: Color holds the migrated
+   value); the legacy name is gone in both *)
 Example xml_roundtrip_known_example :
   db_coherent db_k = true /\ db_keys_ok db_k [] = true /\ db_names_ok db_k = true /\
   input_ok d_k [1] /\ hash_ok e_k /\ db_dom e_k vc_k false [] d_k [1] /\ db_dom e_k vc_k true [] d_k [1] /\
@@ -1148,34 +1395,43 @@ Example known_prop_step_example :
 Proof. repeat split; try (vm_compute; reflexivity). eexists. vm_compute. reflexivity. Qed.
 
 (* ---- H3 on the bundled database itself: a Model with a Part (alias spelling `size`; Color, serialized as Color3uint8) *)
-Definition e_b : xenv := mkXE Database.database [] [] o_k hash_k.
+Definition e_b : xenv := mkXE Database.database MigrationTables.font_migration_table MigrationTables.brick_color_table o_k hash_k.
 Definition vc_b : vcodec (xe_o e_b) := simple_codec (xe_o e_b) o_k_float_laws.
 Definition d_b : cdom :=
   [mkInst 1 0 (B "Model") (B "m") [(B "PrimaryPart", VRef 2); (B "ModelMeshData", VSharedString (B "abc")); (B "Mystery", VInt32 7)];
    mkInst 2 1 (B "Part") (B "p")
      [(B "size", VVector3 (mkV3 F32_ONE F32_NNAN F32_ZERO)); (B "Color", VColor3 F32_ONE F32_HALF F32_ZERO); (B "Anchored", VBool true);
-      (B "Transparency", VFloat32 F32_HALF)]].
+      (B "Transparency", VFloat32 F32_HALF); (B "BrickColor", VBrickColor 194)];
+   mkInst 3 1 (B "Part") (B "q") [(B "brickColor", VBrickColor 194)];
+   mkInst 4 1 (B "TextLabel") (B "t") [(B "Font", VEnum 3)];
+   mkInst 5 1 (B "ScreenGui") (B "g") [(B "IgnoreGuiInset", VBool true)];
+   mkInst 6 1 (B "ImageLabel") (B "i") [(B "Image", VContentId (B "rbxasset://x"))]].
 Definition d_b_back : cdom :=
   [mkInst 1 0 (B "Model") (B "m") [(B "ModelMeshData", VSharedString (B "abc")); (B "PrimaryPart", VRef 2)];
    mkInst 2 1 (B "Part") (B "p")
      [(B "Size", VVector3 (mkV3 F32_ONE F32_NAN F32_ZERO)); (B "Transparency", VFloat32 F32_HALF); (B "Color", VColor3uint8 255 128 0);
-      (B "Anchored", VBool true)]].
+      (B "Anchored", VBool true)];
+   mkInst 3 1 (B "Part") (B "q") [(B "Color", VColor3uint8 163 162 165)];
+   mkInst 4 1 (B "TextLabel") (B "t") [(B "FontFace", VFont (mkFont (B "rbxasset://fonts/families/SourceSansPro.json") 400 0 None))];
+   mkInst 5 1 (B "ScreenGui") (B "g") [(B "ScreenInsets", VEnum 1)];
+   mkInst 6 1 (B "ImageLabel") (B "i") [(B "ImageContent", VContent (CUri (B "rbxasset://x")))]].
 
 Lemma d_b_dom : db_dom e_b vc_b false bundled_exceptions d_b [1].
 Proof.
-  assert (HW : written d_b [1] = [1; 2]) by reflexivity.
+  assert (HW : written d_b [1] = [1; 2; 3; 4; 5; 6]) by reflexivity.
   intros id i Hid Hf. rewrite HW in Hid. cbn [In] in Hid.
-  destruct Hid as [<-|[<-|[]]]; vm_compute in Hf; inversion Hf; subst i; cbn [i_class i_props]; split.
-  all: try (intros k v Hkv; cbn [In] in Hkv;
-            repeat (destruct Hkv as [Hkv|Hkv]; [inversion Hkv; subst k v; clear Hkv|]); try contradiction;
-            (split; [vm_compute; discriminate|]);
-            (split; [cbn [bundled_exceptions In]; intros [E|[E|[]]]; vm_compute in E; discriminate E|]); kdesc_compute;
-            first [ split; [exact I|split; [exact I|val_ok_solve]] | exact I ]).
-  all: intros k1 k2 t H1 H2 T1 T2; cbn [List.map fst In] in H1, H2.
-  all: repeat match goal with H : _ \/ _ |- _ => destruct H | H : False |- _ => contradiction end; subst; try reflexivity; exfalso.
-  all: vm_compute in T1, T2; congruence.
+  destruct Hid as [<-|[<-|[<-|[<-|[<-|[<-|[]]]]]]]; vm_compute in Hf; inversion Hf; subst i; cbn [i_class i_props]; split.
+  all: try (apply one_spelling_b_sound; vm_compute; reflexivity).
+  all: intros k v Hkv; cbn [In] in Hkv;
+       repeat (destruct Hkv as [Hkv|Hkv]; [inversion Hkv; subst k v; clear Hkv|]); try contradiction;
+       (split; [vm_compute; discriminate|]);
+       (split; [cbn [bundled_exceptions In]; intros [E|[E|[]]]; vm_compute in E; discriminate E|]); kdesc_compute.
+  all: first [ split; [exact I|split; [exact I|val_ok_solve]] | mig_solve | exact I ].
 Qed.
 
+(* H3 on the bundled database with the regenerated migration tables: alias spelling, quantised Color3, Ref, SharedString, an
+   unknown property; BrickColor next to an explicit Color (instance 2), the legacy alias `brickColor` alone (3), Enum.Font ->
+   FontFace (4), IgnoreGuiInset -> ScreenInsets (5), a ContentId-typed Image -> ImageContent (6) *)
 Example xml_roundtrip_known_bundled_example :
   input_ok d_b [1] /\ hash_ok e_b /\ db_dom e_b vc_b false bundled_exceptions d_b [1] /\
   thru e_b EIgnoreUnknown DIgnoreUnknown d_b [1] = Ok d_b_back.
@@ -1201,19 +1457,6 @@ Proof. induction l as [|[k' v] l IH]; intro acc; [reflexivity|]. rewrite bupd_al
 Theorem two_spellings_last_wins e keep c ps t : Forall (rd_ok e c) ps ->
   bfind t (store_all (reflD e (dbeh_of keep)) c ps []) = blast t (List.map p_kv (filter_map (tr e keep c) ps)) None.
 Proof. intro H. rewrite (store_all_refl e keep c ps [] H). rewrite bfind_bupd_all_last. reflexivity. Qed.
-
-(* (c) [one_spelling] is decidable per instance *)
-Definition one_spelling_b (e : xenv) (keep : bool) (c : bytes) (keys : list bytes) : bool :=
-  forallb (fun k1 => forallb (fun k2 => bytes_eqb k1 k2 ||
-                                        match tkey e keep c k1, tkey e keep c k2 with
-                                        | Some t1, Some t2 => negb (bytes_eqb t1 t2)
-                                        | _, _ => true
-                                        end) keys) keys.
-Lemma one_spelling_b_sound e keep c keys : one_spelling_b e keep c keys = true -> one_spelling e keep c keys.
-Proof.
-  unfold one_spelling_b. intros H k1 k2 t H1 H2 T1 T2. rewrite forallb_forall in H. specialize (H k1 H1). rewrite forallb_forall in H.
-  specialize (H k2 H2). rewrite T1, T2, bytes_eqb_refl in H. cbn [negb] in H. rewrite orb_false_r in H. now apply beqb_true_iff.
-Qed.
 
 (* (d) [one_spelling] is needed: `Size` and its alias `size` on one Part of the bundled database; one property comes back,
    holding the value of `size`, whichever way the instance lists the two *)
@@ -1261,11 +1504,86 @@ Proof. split; vm_compute; reflexivity. Qed.
    undoes them ([norm_known_tags], [norm_known_brickcolor]); for a property it does not know (kept by WriteUnknown /
    ReadUnknown) they stay: [unknown_brickcolor_back], [unknown_tags_back]. *)
 From RbxVerif Require CrossFormat.
+From RbxVerif Require Attr AttrFacts AttrSpecFacts BytesFacts.
+
+(* ---- Attributes.  The blob `Attributes::to_writer` produces for a well-formed map ([wf_amap], the hypothesis of
+   Proofs/AttrFacts.v attr_roundtrip) is a byte string, so the base64 text of the BinaryString element decodes to it *)
+Lemma bytes_ok_flat_map {A} (f : A -> bytes) l : (forall x, In x l -> bytes_ok (f x) = true) -> bytes_ok (flat_map f l) = true.
+Proof.
+  induction l as [|x r IH]; intro H; [reflexivity|]. cbn [flat_map]. rewrite BytesFacts.bytes_ok_app, (H x (or_introl eq_refl)), IH; [reflexivity|].
+  intros y Hy. apply H. now right.
+Qed.
+Lemma write_string_bytes s : bytes_ok s = true -> bytes_ok (Attr.write_string s) = true.
+Proof. intro H. unfold Attr.write_string, Attr.write_u32. rewrite BytesFacts.bytes_ok_app, H. now rewrite BytesFacts.le_bytes_ok. Qed.
+Lemma bytes_ok_app_intro (a b : bytes) : bytes_ok a = true -> bytes_ok b = true -> bytes_ok (a ++ b)%list = true.
+Proof. intros H1 H2. now rewrite BytesFacts.bytes_ok_app, H1, H2. Qed.
+Ltac bytes_solve :=
+  unfold Attr.write_color3, Attr.write_udim, Attr.write_vector2, Attr.write_vector3, Attr.write_u32, Attr.write_u16, Attr.write_u8,
+         Attr.write_i32, Attr.write_f32, Attr.write_f64;
+  repeat first [ apply BytesFacts.le_bytes_ok | assumption | apply write_string_bytes; assumption | apply bytes_ok_app_intro ].
+Lemma wf_bytes_ok s : AttrFacts.wf_bytes s = true -> bytes_ok s = true.
+Proof. unfold AttrFacts.wf_bytes. intro H. apply andb_true_iff in H. exact (proj1 H). Qed.
+Lemma wf_string_ok s : AttrFacts.wf_string s = true -> bytes_ok s = true.
+Proof. intro H. exact (proj1 (AttrFacts.wf_string_parts s H)). Qed.
+Lemma write_value_bytes v b : AttrFacts.wf_value v = true -> Attr.write_value v = Ok b -> bytes_ok b = true.
+Proof.
+  intros Hwf H. destruct v; cbn [Attr.write_value] in H; try discriminate H;
+    apply (f_equal (fun r : res bytes => match r with Ok x => x | _ => [] end)) in H; cbv beta iota in H; subst b; cbn [AttrFacts.wf_value] in Hwf.
+  - (* BinaryString *) apply write_string_bytes, wf_bytes_ok, Hwf.
+  - (* Bool *) destruct b0; reflexivity.
+  - bytes_solve.
+  - (* CFrame *) destruct (Rotation.to_basic_rotation_id (cf_rot c)); bytes_solve.
+  - bytes_solve.
+  - (* ColorSequence *) bytes_solve. apply bytes_ok_flat_map. intros [t [[r g] b0]] _. bytes_solve.
+  - bytes_solve.
+  - bytes_solve.
+  - bytes_solve.
+  - bytes_solve.
+  - (* NumberSequence *) bytes_solve. apply bytes_ok_flat_map. intros [[t x] e0] _. bytes_solve.
+  - bytes_solve.
+  - (* String *) apply write_string_bytes, wf_bytes_ok, Hwf.
+  - bytes_solve.
+  - bytes_solve.
+  - bytes_solve.
+  - bytes_solve.
+  - (* Font *) apply andb_true_iff in Hwf. destruct Hwf as [Hwf Hcached]. apply andb_true_iff in Hwf. destruct Hwf as [Hwf _].
+    apply andb_true_iff in Hwf. destruct Hwf as [Hfam _].
+    assert (B1 : bytes_ok (fo_family f) = true) by (apply wf_string_ok; assumption).
+    assert (B2 : bytes_ok (match fo_cached f with Some s => s | None => [] end) = true)
+      by (destruct (fo_cached f); [apply wf_string_ok; assumption|reflexivity]).
+    bytes_solve.
+  - (* EnumItem *) apply andb_true_iff in Hwf. destruct Hwf as [Hwf _]. assert (B1 : bytes_ok ty = true) by (apply wf_string_ok; assumption). bytes_solve.
+Qed.
+Lemma write_entries_bytes m : forall b, forallb AttrFacts.wf_entry m = true -> Attr.write_entries m = Ok b -> bytes_ok b = true.
+Proof.
+  induction m as [|[k v] m IH]; intros b Hwf H; cbn [Attr.write_entries] in H; [inversion H; reflexivity|].
+  cbn [forallb] in Hwf. apply andb_true_iff in Hwf. destruct Hwf as [He Hm]. unfold AttrFacts.wf_entry in He. cbn [fst snd] in He.
+  apply andb_true_iff in He. destruct He as [Hk Hv].
+  unfold Attr.write_entry in H. destruct (Attr.from_variant_type (vtype v)) as [id|] eqn:Eid; [|discriminate H].
+  destruct (Attr.write_value v) as [body| | |] eqn:Ev; cbn [rbind] in H; try discriminate H.
+  destruct (Attr.write_entries m) as [b'| | |] eqn:Em; cbn [rbind] in H; try discriminate H. apply XmlCompound2.ok_inj in H. subst b.
+  pose proof (AttrSpecFacts.from_variant_type_lt _ _ Eid) as Hid. apply N.ltb_lt in Hid.
+  apply bytes_ok_app_intro; [|exact (IH b' Hm eq_refl)]. apply bytes_ok_app_intro; [exact (write_string_bytes k (wf_string_ok k Hk))|].
+  apply bytes_ok_app_intro; [cbn [bytes_ok forallb]; now rewrite Hid|exact (write_value_bytes v body Hv Ev)].
+Qed.
+Lemma attr_encode_bytes m b : AttrFacts.wf_amap m = true -> Attr.attr_encode m = Ok b -> bytes_ok b = true.
+Proof.
+  unfold AttrFacts.wf_amap. intros Hwf H. apply andb_true_iff in Hwf. destruct Hwf as [_ Hent].
+  unfold Attr.attr_encode in H. destruct m as [|e m]; [inversion H; reflexivity|].
+  destruct (Attr.write_entries (e :: m)) as [body| | |] eqn:Eb; cbn [rbind] in H; try discriminate H. apply XmlCompound2.ok_inj in H. subst b.
+  apply bytes_ok_app_intro; [apply BytesFacts.le_bytes_ok|exact (write_entries_bytes _ _ Hent Eb)].
+Qed.
+(* the blob of a map (the empty blob where the writer fails: the law below is then vacuous, the writer having written nothing) *)
+Definition attr_blob (m : list (bytes * value)) : bytes := match Attr.attr_encode m with Ok b => b | _ => [] end.
+Lemma attr_blob_ok m b : Attr.attr_encode m = Ok b -> attr_blob m = b.
+Proof. unfold attr_blob. now intros ->. Qed.
+
 Definition ext_ok (v : value) : Prop :=
   match v with
   | VBrickColor n => (n <? 65536) = true
   | VTags ts => CrossFormat.tags_scope None ts = true
   | VMaterialColors m => CrossFormat.matcol_scope None m = true
+  | VAttributes m => AttrFacts.wf_amap m = true
   | VCFrame _ | VOptionalCFrame _ | VNumberRange _ _ => True
   | VNumberSequence kps => CrossFormat.nseq_scope None kps = true
   | VColorSequence kps => CrossFormat.cseq_scope None kps = true
@@ -1276,6 +1594,7 @@ Definition ext_norm (v : value) : value :=
   | VBrickColor n => VInt32 (Z.of_N n)
   | VTags ts => VBinaryString (Tags.tags_encode ts)
   | VMaterialColors m => VBinaryString (BinValues.matcol_encode m)
+  | VAttributes m => VBinaryString (attr_blob m)
   | VCFrame cf => VCFrame (norm_cf cf)
   | VOptionalCFrame x => VOptionalCFrame (option_map norm_cf x)
   | VNumberRange lo hi => VNumberRange (norm_f32 lo) (norm_f32 hi)
@@ -1296,6 +1615,10 @@ Proof.
   - intros tag evs Hw name. exact (CrossFormat.xml_nseq dc0 o kps tag evs dl pl Hok Hw name).
   - intros tag evs Hw name. exact (CrossFormat.xml_ocf o c tag evs dl Hw name).
   - intros tag evs Hw name. exact (CrossFormat.xml_tags dc0 o ts tag evs Hok Hw name).
+  - (* Attributes *)
+    intros tag evs Hw name. cbn [write_xml] in Hw. destruct (Attr.attr_encode m) as [buf| | |] eqn:Ee; try discriminate Hw.
+    inversion Hw; subst tag evs. rewrite (attr_blob_ok m buf Ee).
+    apply (CrossFormat.xml_blob_rt o buf). apply Forall_forall. apply BytesFacts.bytes_ok_forall. exact (attr_encode_bytes m buf Hok Ee).
   - intros tag evs Hw name. exact (CrossFormat.xml_matcol dc0 o m tag evs Hok Hw name).
 Qed.
 Definition ext_codec (o : xoracle) (H : CrossFormat.xml_oracle_ok o) : vcodec o := mkVC o ext_ok ext_norm (ext_law o H).
@@ -1315,6 +1638,17 @@ Proof.
   replace ((0 <=? Z.of_N n)%Z) with true by (symmetry; apply Z.leb_le; lia).
   replace ((Z.of_N n <=? 65535)%Z) with true by (symmetry; apply Z.leb_le; lia). reflexivity.
 Qed.
+(* a known Attributes property (canonical type Attributes, serialized as the BinaryString `AttributesSerialize`): the blob is
+   decoded again; what comes back is the map as Attributes::from_reader rebuilds it ([Attr.norm]: attr_roundtrip) *)
+Lemma norm_known_attributes o m b : AttrFacts.wf_amap m = true -> Attr.attr_encode m = Ok b ->
+  norm_known o ext_norm 1 33 (VAttributes m) = Ok (VAttributes (Attr.norm m)).
+Proof.
+  intros Hwf He. unfold norm_known. cbn [try_convert rbind ext_norm]. rewrite (attr_blob_ok m b He).
+  change (33 =? XT_Tags) with false. change (33 =? XT_Attributes) with true. cbv iota.
+  rewrite (AttrFacts.attr_roundtrip m b Hwf He). reflexivity.
+Qed.
+Lemma unknown_attributes_back W m b : Attr.attr_encode m = Ok b -> value_back W ext_norm (VAttributes m) = VBinaryString b.
+Proof. intro He. cbn [value_back ext_norm]. now rewrite (attr_blob_ok m b He). Qed.
 (* a property the database does not know, kept: the documented changes of type *)
 Lemma unknown_brickcolor_back W n : value_back W ext_norm (VBrickColor n) = VInt32 (Z.of_N n).
 Proof. reflexivity. Qed.
@@ -1325,38 +1659,77 @@ Proof. reflexivity. Qed.
 
 Definition db_x : db := mkDb
   [mkCD "Instance" None false
-     [mkPD "Name" (DValue 24) (KCanon PSerializes); mkPD "Tags" (DValue 32) (KCanon PSerializes)] [];
+     [mkPD "Name" (DValue 24) (KCanon PSerializes); mkPD "Tags" (DValue 32) (KCanon PSerializes);
+      mkPD "Attributes" (DValue 33) (KCanon (PSerAs "AttributesSerialize")); mkPD "AttributesSerialize" (DValue 1) (KAlias "Attributes")] [];
    mkCD "Part" (Some "Instance") false [mkPD "CFrame" (DValue 4) (KCanon PSerializes)] []] [].
 Definition e_x : xenv := mkXE db_x [] [] CrossFormat.o2 hash_k.
 Definition vc_x : vcodec (xe_o e_x) := ext_codec (xe_o e_x) CrossFormat.o2_ok.
+Definition am_x : list (bytes * value) := [(B "a", VBool true); (B "s", VString (B "hi"))].
 Definition d_x : cdom :=
-  [mkInst 1 0 (B "Part") (B "p") [(B "Tags", VTags [B "b"; B "a"]); (B "Paint", VBrickColor 194); (B "CFrame", VCFrame CrossFormat.cf_basis)]].
+  [mkInst 1 0 (B "Part") (B "p")
+     [(B "Tags", VTags [B "b"; B "a"]); (B "Paint", VBrickColor 194); (B "CFrame", VCFrame CrossFormat.cf_basis);
+      (B "Attributes", VAttributes am_x); (B "Extra", VAttributes am_x)]].
 Lemma d_x_dom : db_dom e_x vc_x true [] d_x [1].
 Proof.
   assert (HW : written d_x [1] = [1]) by reflexivity.
   intros id i Hid Hf. rewrite HW in Hid. cbn [In] in Hid.
   destruct Hid as [<-|[]]; vm_compute in Hf; inversion Hf; subst i; cbn [i_class i_props]; split.
-  - intros k v Hkv; cbn [In] in Hkv.
-    repeat (destruct Hkv as [Hkv|Hkv]; [inversion Hkv; subst k v; clear Hkv|]); try contradiction;
-    (split; [vm_compute; discriminate|]); (split; [intros []|]); kdesc_compute.
-    + split; [exact I|split; [exact I|]]. cbn [val_ok]. eexists; split; [vm_compute; reflexivity|]. split; [vm_compute; reflexivity|eexists; vm_compute; reflexivity].
-    + intros _. vm_compute. reflexivity.
-    + split; [exact I|split; [exact I|]]. cbn [val_ok]. eexists; split; [vm_compute; reflexivity|]. split; [exact I|eexists; vm_compute; reflexivity].
-  - apply one_spelling_b_sound. vm_compute. reflexivity.
+  all: try (apply one_spelling_b_sound; vm_compute; reflexivity).
+  all: intros k v Hkv; cbn [In] in Hkv;
+       repeat (destruct Hkv as [Hkv|Hkv]; [inversion Hkv; subst k v; clear Hkv|]); try contradiction;
+       (split; [vm_compute; discriminate|]); (split; [intros []|]); kdesc_compute.
+  all: first [ split; [exact I|split; [exact I|val_ok_solve]] | intros _; vc_ok_solve ].
 Qed.
 
-(* the larger law is not vacuous: a known Tags property, a known CFrame property, an unknown BrickColor property (kept) *)
+(* the larger law is not vacuous: a known Tags property, a known CFrame property, a known Attributes property (back as the
+   map, its String entry as the BinaryString Attributes::from_reader makes of it), an unknown BrickColor property (kept: back
+   as Int32) and an unknown Attributes-valued property (kept: back as the BinaryString of the blob) *)
 Example xml_roundtrip_known_ext_example :
   db_coherent db_x = true /\ db_keys_ok db_x [] = true /\ db_names_ok db_x = true /\
   input_ok d_x [1] /\ hash_ok e_x /\ db_dom e_x vc_x true [] d_x [1] /\
+  AttrFacts.wf_amap am_x = true /\
+  Attr.attr_encode am_x = Ok [2; 0; 0; 0; 1; 0; 0; 0; 97; 3; 1; 1; 0; 0; 0; 115; 2; 2; 0; 0; 0; 104; 105] /\
   thru e_x EWriteUnknown DReadUnknown d_x [1]
   = Ok [mkInst 1 0 (B "Part") (B "p")
-          [(B "Tags", VTags [B "b"; B "a"]); (B "Paint", VInt32 194); (B "CFrame", VCFrame (norm_cf CrossFormat.cf_basis))]].
+          [(B "Tags", VTags [B "b"; B "a"]); (B "Paint", VInt32 194);
+           (B "Extra", VBinaryString [2; 0; 0; 0; 1; 0; 0; 0; 97; 3; 1; 1; 0; 0; 0; 115; 2; 2; 0; 0; 0; 104; 105]);
+           (B "CFrame", VCFrame (norm_cf CrossFormat.cf_basis));
+           (B "Attributes", VAttributes [(B "a", VBool true); (B "s", VBinaryString (B "hi"))])]].
 Proof.
   split; [vm_compute; reflexivity|]. split; [vm_compute; reflexivity|]. split; [vm_compute; reflexivity|].
   split; [apply input_okb_sound; vm_compute; reflexivity|]. split; [exact e_rt_hash_ok|]. split; [exact d_x_dom|].
-  vm_compute. reflexivity.
+  split; [vm_compute; reflexivity|]. split; [vm_compute; reflexivity|]. vm_compute. reflexivity.
 Qed.
+
+(* [mig_val_ok], the migration is defined: Enum.Font item 46 has no FontFace (Proofs/MigrateFacts.v font_unmigratable_refuted,
+   Proofs/MigratePaths.v bundled_font_46_unmigratable, migrate_failure_paths_disagree_refuted).  Alone on a TextLabel of the
+   bundled database, the file the serializer writes with the default options is REJECTED by the deserializer; next to an explicit
+   FontFace it is harmless (the writer skips it before trying to migrate: [mig_val_ok] asks nothing of it then) *)
+Example migration_undefined_refuted :
+  migrate (xe_font e_b) (xe_brick e_b) MigFont (VEnum 46) = None /\
+  thru e_b EIgnoreUnknown DIgnoreUnknown [mkInst 1 0 (B "TextLabel") (B "t") [(B "Font", VEnum 46)]] [1] = Err DE_MIGRATION /\
+  thru e_b EIgnoreUnknown DIgnoreUnknown
+    [mkInst 1 0 (B "TextLabel") (B "t") [(B "Font", VEnum 46); (B "FontFace", VFont (mkFont (B "x") 400 0 None))]] [1]
+  = Ok [mkInst 1 0 (B "TextLabel") (B "t") [(B "FontFace", VFont (mkFont (B "x") 400 0 None))]].
+Proof. repeat split; vm_compute; reflexivity. Qed.
+
+(* ================================================================= (10) the SharedString clause of [val_ok] *)
+(* [val_ok] asks, of a SharedString value, that the reader's conversion leaves the placeholder the first pass stores
+   (an empty BinaryString) alone.  That is a condition on the canonical TYPE only: it holds for every type but Tags and
+   Attributes (where the empty blob decodes to the empty Tags / Attributes) ... *)
+Lemma val_ok_sharedstring_typed e vc sty cty c : cty <> 32 -> cty <> 33 -> val_ok e vc sty cty (VSharedString c).
+Proof.
+  intros H1 H2. cbn [val_ok try_convert]. unfold XT_Tags, XT_Attributes, XT_MaterialColors.
+  destruct (N.eqb_spec cty 32); [contradiction|]. destruct (N.eqb_spec cty 33); [contradiction|].
+  destruct (cty =? 36); reflexivity.
+Qed.
+(* ... and there the clause is a simplification of the PROOF (the decoded table is described through the value the first pass
+   stores), not a restriction of the codec: a SharedString in a Tags-typed property fails the clause and still comes back *)
+Example val_ok_sharedstring_clause_not_necessary :
+  ~ val_ok e_x vc_x 32 32 (VSharedString (B "xyz")) /\
+  thru e_x EWriteUnknown DReadUnknown [mkInst 1 0 (B "Part") (B "p") [(B "Tags", VSharedString (B "xyz"))]] [1]
+  = Ok [mkInst 1 0 (B "Part") (B "p") [(B "Tags", VSharedString (B "xyz"))]].
+Proof. split; [cbn [val_ok]; vm_compute; discriminate|vm_compute; reflexivity]. Qed.
 
 (* EXPORT (for Properties/C02.v):
      known_write known_read known_prop_step                 H1: one known property through serialize_property / deserialize_property
@@ -1368,8 +1741,11 @@ Qed.
      bundled_keys_ok bundled_names_ok bundled_keys_count xml_roundtrip_known_bundled
                                                              H3 on Gen/Database.v (22588 (class, key) pairs; two exceptions)
      two_spellings_listing_irrelevant two_spellings_last_wins one_spelling_b_sound two_spellings_refuted      H4
-     vcodec simple_codec ext_codec ext_law norm_known_tags norm_known_brickcolor unknown_brickcolor_back unknown_tags_back
+     vcodec simple_codec ext_codec ext_law attr_encode_bytes norm_known_tags norm_known_brickcolor norm_known_attributes
+     unknown_brickcolor_back unknown_tags_back unknown_attributes_back
                                                              the per-value law as a parameter; the two instances
      xml_roundtrip_known_example known_prop_step_example xml_roundtrip_known_bundled_example xml_roundtrip_known_ext_example
                                                              non-vacuity
-     seras_not_back_refuted seras_clash_refuted unknown_property_dropped                                      necessity / findings *)
+     migrated_back mig_val_ok explicit_key explicit_value_stays db_keys_ok_sound_mig                         legacy (migrating) properties
+     val_ok_sharedstring_typed val_ok_sharedstring_clause_not_necessary                                        the SharedString clause of val_ok
+     seras_not_back_refuted seras_clash_refuted unknown_property_dropped migration_undefined_refuted         necessity / findings *)
